@@ -12,2343 +12,2013 @@ Definition show_fres (r : fres) : string :=
   end.
 Definition check (rs : list rune) : string := digest (show_fres (format_res rs)).
 Definition full (rs : list rune) : string := show_fres (format_res rs).
-Eval vm_compute in ("<<<M4230>>>" ++ check (runes_of_ascii "
-root
-    packet
-
-crc 
-{
-	@calculatedFrom(	""1""
-
-    ) f32
-
-x	,
-	@calculatedFrom(	""// no comment""
-) 	 //x
-
-string
-	chars
-
-, @calculatedFrom( ""a\""b""
-    )
-@rightPad
-(
-) @tag(7)match 
-A
-as 
-matchKey
-
-{[	42] 
-:msg_type
-	""x y"" :
-lengthOf""a\\""	:
-packetx /// triple
-	,	[  ""`tick`""
-
-,  ""x y""  , ""a\""b"" , 	 // packet A { u8 x, }
-
-  ""x y""
-,
-	00 ,  ""it's"" , 
-7
-,
-""""	]:
-
-    Logon	}  // a // b
-	, @lengthOf(
-
-    falsey	)  repeat falsey  `u8 x,`
-
-, u8x {  int16
-    lengthOf `u8 x,`  ,
-
-    f32a	// " ++ [128512]%N ++ runes_of_ascii " emoji
-    	packetx
-,  },
-	lengthOf @lengthOf(
-	calculatedFrom
-    )  ,
-@rightPad
-
-    ( 
-'0'  )  f32 f32a
-, 
-//
-  // packet A { u8 x, }
-
-  @calculatedFrom(
-    """ ++ [128512]%N ++ runes_of_ascii """ ) 
-tag
-
-    , 
-
-    // " ++ [27880; 37322]%N ++ runes_of_ascii "
-
-  //x
-  	string
-
-zchar 
-`// not a comment`
-    ,	}MetaData
-matchKey
-
-{
-    }
-
-packet	uint8x 
-{ 
-// a // b
-  //x
-  repeat lengthOf  
-      // a // b
-	// @lengthOf(
-	{
-
-u16 u128  //
-  ,
-
-Pad
-
-,
-
-    }
-
-    ,@tag( 4294967296	)
-@calculatedFrom(
-
-""x y""
-
-)
-
-    @tag( 0
-
-)	char[4294967296]
-
-    options1
-
-@calculatedFrom(
-
-    ""CRC32""
-)
-,	@rightPad
-	( '\x00' )
-
-repeat
-    string 
-asx `a\` 	 // " ++ [128512]%N ++ runes_of_ascii " emoji
-		, @calculatedFrom(
-""" ++ [128512]%N ++ runes_of_ascii """ )
-
-char[
-
-    255 
-] len	@calculatedFrom( """ ++ [233]%N ++ runes_of_ascii "t" ++ [233]%N ++ runes_of_ascii """  ) 
-,  @calculatedFrom( 	 //x
-""{,}""  )repeat
-
-    zchar  calculatedFrom,
-
-@calculatedFrom(
-""" ++ [233]%N ++ runes_of_ascii "t" ++ [233]%N ++ runes_of_ascii """
-
-)
-
-string
-o
-	@lengthOf(
-u
-    ), uint64
-	falsey
-        // " ++ [128512]%N ++ runes_of_ascii " emoji
-	  @calculatedFrom( ""\" ++ [233]%N ++ runes_of_ascii """
-    )
-	,
-    zchar[
-	65535 ] stringy@calculatedFrom(
-	""1""
-) , 
-As	,}
-packet
-    BodyLength{repeat
-
-uint32
-
-body
-,	zchar[ 
-65535 ] 
-//	t
-	Header  ,As
-	i8i8 
-`tab	here`
-
-    ,
-@calculatedFrom(
-    """ ++ [128512]%N ++ runes_of_ascii """
-
-    )
-    @rightPad
-(	// trailing space 
-'0' 
-) @tag(
-    65535) 
-Pad{
-    string
-    u128	,
-	}  ,@tag(
-
-    255
-    ) @leftPad ()
-
-    @lengthOf(  f32a
-) repeat
-o , repeat
-i8i8 {repeat f32a	/// triple
-    float 
-`line1
-line2`
-    , 
-repeat char[ 0123456789 ] pack
-	`tab	here`, // `tick` ""quote"" 'q'
-  char[]
-    x ,
-
-    },
-@calculatedFrom(
-
-    """"	) @lengthOf( lengthOf
-)	repeat
-
-    char[	65535
-    ] Foo 
-,  pack 
-lengthOf
-
-, repeat Pad,
-
-} packet // " ++ [128512]%N ++ runes_of_ascii " emoji
-  u8x	{ 
-    //
-
-  @tag( // `tick` ""quote"" 'q'
-	255
-	)
-	repeat
-
-zchar[ 	 // trailing space 
-
-  4294967296
-    ]  pack
-
-,  // " ++ [128512]%N ++ runes_of_ascii " emoji
-  char[ 0123456789
-
-]
-    charz	// trailing space 
-
-@calculatedFrom(//x
-  ""a\""b""
-    )// packet A { u8 x, }
-    , 
-
-//
-@lengthOf(
-    Header
-    ) 
-        // c
-//x
-  f32a{
-    u128
-@calculatedFrom( """"
-// " ++ [128512]%N ++ runes_of_ascii " emoji
-) `line1
-line2` ,  T
-
-    @calculatedFrom(
-
-""a\""b""
-	)
-,
-int32
-lengthOf
-    @lengthOf(
-msg_type)
-	,
-    Foo @calculatedFrom( ""a\""b""),
-}  ,
-}
-
-")).
-Eval vm_compute in ("<<<M3868>>>" ++ check (runes_of_ascii "packet Logon {
-    repeat string a1 `crlf
-        line`,
-    @lengthOf(Pad)
-    match Pad as u8x {
-        4294967296 : i8i8,
-    },
-    asx a1,
-    @lengthOf(body)
-    //x
-    msg_type int,
-    tag `line1
-        line2`,
-    repeat Z9_ {
-        u16 packetx @calculatedFrom(""it's""),
-    },
-    @lengthOf(Logon)
-    @rightPad()
-    @calculatedFrom(""" ++ [233]%N ++ runes_of_ascii "t" ++ [233]%N ++ runes_of_ascii """)
-    repeat roots u128,
-    @calculatedFrom(""{,}"")
-    chars {
-        match roots as Foo {
-            10 : trueish,
-        },
-    },
-    i8i8,
-    @calculatedFrom(""x y"")
-    @calculatedFrom(""a\""b"")
-    repeat Z9_ {
-        f32a msg_type,
-        repeat o {
-            // " ++ [128512]%N ++ runes_of_ascii " emoji
-            // @lengthOf(
-            zchar[0] charz @calculatedFrom(""CRC32""),
-        },
-    },
-}
-
-root packet BodyLength {
-    calculatedFrom {
-        char[] x @calculatedFrom(""\n""),// @lengthOf(
-        _x @calculatedFrom(""`tick`""),
-        repeat u128,
-        float Packet `" ++ [28040; 24687; 31867; 22411]%N ++ runes_of_ascii "`,
-    },
-    repeat Foo {
-        uint64 a1,
-    },/// triple
-    repeat char[42] matchKey `it's`,
-    lengthOf {
-        // " ++ [27880; 37322]%N ++ runes_of_ascii "
-        u128 trueish `// not a comment`,
-        match chars as MetaDataX {
-            00 : x_y_z,
-            1 : trueish,
-            [0123456789] : calculatedFrom,
-            [
-                007, ""CRC32"", ""\" ++ [233]%N ++ runes_of_ascii """, ""// no comment"", ""it's"",
-                ""packet""
-            ] : Pad,
-        },
-    },
-    repeat char[] Logon,
-    @leftPad('0')
-    f32 Pad @calculatedFrom(""CRC32""),
-    @lengthOf(BodyLength)
-    options1 @calculatedFrom(""`tick`""),
-    A {
-        // " ++ [27880; 37322]%N ++ runes_of_ascii "
-        //	t
-        uint8 charz `u8 x,`,
-        falsey x `line1
-                line2`,
-        repeat int8 Packet,
-        zchar[1] float,
-    },
-    char[65535] matchKey @calculatedFrom(""x y""),
-    @lengthOf(o)
-    match chars as As {
-        1 : f32a,
-    },
-}
-
-packet int {
-    @calculatedFrom(""// no comment"")
-    @rightPad()
-    @calculatedFrom(""" ++ [233]%N ++ runes_of_ascii "t" ++ [233]%N ++ runes_of_ascii """)
-    roots _x `say ""hi""`,// `tick` ""quote"" 'q'
-}
-
-options {
-    o = ""{,}""
-    Pad = 255;
-}// " ++ [27880; 37322]%N)).
-Eval vm_compute in ("<<<M3973>>>" ++ check (runes_of_ascii "
-options{
-
-    u = char[] }
-
-MetaData	u	// " ++ [27880; 37322]%N ++ runes_of_ascii "
-  {
-char[	0
-	]
-Logon
-, 
-char[]
-
-x_y_z,
-	string string_	// @lengthOf(
-	,
-	u64 
-uint8x
-
-    ,}packet body {	char[
-
-00
-
-    ] rootA ,T{ stringy 	 // packet A { u8 x, }
-    {  repeat char[]
-//
-	//x
-    metadata
-`" ++ [28040; 24687; 31867; 22411]%N ++ runes_of_ascii "`
-,
-match
-	i8i8  // packet A { u8 x, }
-  as
-	BodyLength{
-	0
-	:
-	BodyLength 
-    //	t
-    ,} , // `tick` ""quote"" 'q'
-
-  packetx @calculatedFrom(
-""CRC32""
-
-)
-
-`
-` 
-,
-}
-
-,int32
-
-falsey `a\`
-, 
-} ,  //	t
-  	match 	 // a // b
-    Z9_
-    as calculatedFrom { 255 
-  //	t
-
-  //	t
-    : As// " ++ [27880; 37322]%N ++ runes_of_ascii "
-}, 
-
-    // " ++ [27880; 37322]%N ++ runes_of_ascii "
-Logon `doc`,  }	root
-
-packet
-
-stringy
-{	match	x as
-	T{ 65535 
-:Header
-, 
-[
-
-    ""a\""b""
-,
-
-    ""1"" ]// " ++ [128512]%N ++ runes_of_ascii " emoji
-
-: Z9_ ,  
-  //
-	//
-  	}
-,
-	char[] /// triple
-  zchar@lengthOf(lengthOf  )
-//x
-	  // @lengthOf(
-`two words`
-	,
-
-options1 {
-
-    repeat int	Header 
-``
-,
-
-    i8	Logon @calculatedFrom( ""a	b""
-	)
-
-`" ++ [28040; 24687; 31867; 22411]%N ++ runes_of_ascii "` ,// @lengthOf(
-	  }
-,  uint32	roots  `// not a comment` ,
-len 
-  //
-
-	//
-  {
-	match
-
-// `tick` ""quote"" 'q'
-//x
-
-options1  as 
-    //x
-// c
-
-o
-{ 65535
-:  f32a
-, ""CRC32""  : tag ,// @lengthOf(
-  4294967296 : 
-u8x,
-0
-    :
-	metadata
-
-, ""a	b""
-
-    :
-    string_	}
-,char[
-	65535
-	] 
-  /// triple
-		// " ++ [128512]%N ++ runes_of_ascii " emoji
-    	crc@calculatedFrom( ""{,}"" 
-) `crlf
-line` ,
-	Pad
-
-    @lengthOf(
-	leftPad
-	)	,
-	uint8	Z9_`u8 x,` ,}	,  msg_type
-    @calculatedFrom( """")
-	,
-// trailing space 
-	// `tick` ""quote"" 'q'
-    repeat 
-u8x
-, match
-	metadata as BodyLength {
-""packet"" //
-      : 
-f32a
-
-7 :  int  /// triple
-	0123456789
-:	x
-
-,	// `tick` ""quote"" 'q'
-    } 
-,
-	uint16
-    i64_
-    ,
-
-    }
-
-packet
-	string_ {
-
-string_  ,
-
-/// triple
-  //
-
-}
-
-")).
-Eval vm_compute in ("<<<M68>>>" ++ check (runes_of_ascii "MetaData
-len { i8 BodyLength , u32
-    u `tab	here`,
-    // `tick` ""quote"" 'q'
-    calculatedFrom	asx `" ++ [28040; 24687; 31867; 22411]%N ++ runes_of_ascii "` /// triple
-,
-Logon Packet `// not a comment`
-    ,
-    } //
-root packet string_ { zchar[ 00
-]
-options1	, match
-x_y_z as msg_type{	""it's""
-    // c
-    :  T 0123456789: a1 10 :
-trueish
-, } ,} packet
-len { int64 crc ,  body {
-f64 leftPad , a1, }
-    , repeat uint8x {repeat f32
-string_`" ++ [28040; 24687; 31867; 22411]%N ++ runes_of_ascii "`
-    , int8 T @calculatedFrom( """"
-    ) `line1
-line2` ,
-uint8 repeatCount	,
-} , u64 Foo `line1
-line2`	, @tag(1 ) repeat
-matchKey
-{ i8	x_y_z @lengthOf(Z9_ )// packet A { u8 x, }
-`tab	here` , calculatedFrom
-trueish// trailing space 
-, uint16 charz
-    // packet A { u8 x, }
-    @calculatedFrom(
-    ""{,}"" )`line1
-line2`	, } ,
-// @lengthOf(
-//
-uint32
-    metadata, @lengthOf( msg_type )repeat Packet { zchar[
-255
-]u8x @calculatedFrom( ""x y"")
-//
-// packet A { u8 x, }
-`crlf
-line`	, repeat
-// `tick` ""quote"" 'q'
-//
-u128 ,// packet A { u8 x, }
-float64 int ,
-    repeat Header	{ char[ 42 ]roots
-    @calculatedFrom(
-    //	t
-    ""CRC32"") `two words`,
-roots @calculatedFrom( ""a	b"" ) `two words`
-// packet A { u8 x, }
-// c
-, u32
-    // c
-    packetx
-@lengthOf( roots
-) , repeat float	BodyLength	`" ++ [233]%N ++ runes_of_ascii "` , } , }	,match
-float
-as A
-{	[ 7 , ""a	b"" ]
-:	Header ,[
-007	, ""1""
-    ]
-// @lengthOf(
-// @lengthOf(
-: charz
-    , ""\" ++ [233]%N ++ runes_of_ascii """ : i8i8 00 :	charz // packet A { u8 x, }
-42	:i64_
-, } , match
-// `tick` ""quote"" 'q'
-//
-uint8x as u8x{ 255 :
-    int } ,	}
-")).
-Eval vm_compute in ("<<<M4352>>>" ++ check (runes_of_ascii "options {
-    // packet A { u8 x, }
-    uint8x = '\x00'
-    Foo = 65535;
-    As = """ ++ [28040; 24687]%N ++ runes_of_ascii """
-}
-
-options {
-}// `tick` ""quote"" 'q'
-
-root packet i8i8 {
-    // packet A { u8 x, }
-    repeat calculatedFrom body `" ++ [233]%N ++ runes_of_ascii "`,
-    @tag(1)
-    repeat lengthOf {
-        match asx as x {
-            """ ++ [233]%N ++ runes_of_ascii "t" ++ [233]%N ++ runes_of_ascii """ : T,
-        },
-        trueish @calculatedFrom(""\n""),
-        u32 x,
-    },
-    @rightPad('\x00')
-    i32 packetx @lengthOf(trueish),
-    @tag(10)
-    repeat asx {
-        repeat int32 lengthOf,
-        int8 repeatCount ``,
-        repeatCount msg_type,
-        msg_type {
-            Logon {
-                charz u `it's`,
-                calculatedFrom repeatCount `crlf
-                                line`,
-            },
-        },
-    },
-    _x {
-        // trailing space 
-        match x_y_z as packetx {
-            ""`tick`"" : Pad,
-            """" : x,
-        },
-        char[] T,
-        int,
-        Z9_ falsey,
-    },
-    string T `it's`,
-    @lengthOf(u128)
-    // @lengthOf(
-    u128 @calculatedFrom(""1""),
-    u128 {
-        float {
-            zchar[00] MetaDataX @lengthOf(leftPad) `it's`,
-        },
-        repeat char[] tag,
-    },
-    @leftPad('0')
-    match A as lengthOf {
-        ""packet"" : Header,
-        0123456789 : leftPad,
-        ""a\""b"" : zchar,
-        ""a	b"" : rootA,
-    },
-    string crc,
-}")).
-Eval vm_compute in ("<<<M3638>>>" ++ check (runes_of_ascii "// top
-options // c0a
-  // c0b
-{
-    // c1
-LittleEndian // c2
-= // c3a
-  // c3b
-false ; // c5a
-  // c5b
-ArrayPrefixLenType // c6a
+Eval vm_compute in ("<<<M3617>>>" ++ check (runes_of_ascii "// top
+options // c0
+{ // c1a
+  // c1b
+LittleEndian = // c3
+true // c4a
+  // c4b
+;
+    // c5
+StringPrefixLenType // c6a
   // c6b
 = // c7a
   // c7b
-u64 // c8
-; FixedStringPadChar
-    // c10
+u16 // c8a
+  // c8b
+; // c9
+ArrayPrefixLenType // c10a
+  // c10b
 = // c11a
   // c11b
-'0' ; // c13
-}
-    // c14
-packet // c15
-Quote { repeat // c18
-InFlags37 // c19a
-  // c19b
-{
-    // c20
-char[]
-    // c21
-lastPx , } // c24a
-  // c24b
-,
-    // c25
-i16 // c26a
-  // c26b
-tag7 // c27
-,
-    // c28
-char[]
-    // c29
-f1 // c30
-, // c31a
-  // c31b
-zchar[ 6 ] // c34
-Note // c35
-, } // c37a
-  // c37b
-packet Order { // c40a
-  // c40b
-u8 // c41
-Ref // c42a
-  // c42b
-,
-    // c43
-repeat // c44
-Quote , // c46
-repeat string Acct // c49
-, } root // c52a
-  // c52b
-packet Heartbeat // c54a
-  // c54b
-{ // c55
-repeat
-    // c56
-Quote ,
-    // c58
-@leftPad // c59
-( '0' // c61a
-  // c61b
-) // c62
-char[ // c63
-11 // c64a
-  // c64b
-] OrderId , // c67a
-  // c67b
-zchar[
-    // c68
-8 ] // c70a
-  // c70b
-Ref
-    // c71
-, u32 // c73a
-  // c73b
-Flags // c74a
-  // c74b
-, // c75a
-  // c75b
-u32 // c76a
-  // c76b
-Tail // c77
-@lengthOf( // c78a
-  // c78b
-Body ) , match // c82
-Flags as Body { 156 : Order // c89
-, // c90a
-  // c90b
-7 // c91a
-  // c91b
-: // c92
-Quote // c93
-, }
-    // c95
-, } // c97
-")).
-Eval vm_compute in ("<<<M350>>>" ++ check (runes_of_ascii "packet
-matchKey
-    {	zchar[ 3
-    ]
-// `tick` ""quote"" 'q'
-// packet A { u8 x, }
-A,msg_type
-`a\` , MetaDataX As  , @lengthOf(
-    Z9_ )repeat
-    f32 _x ,
-    @lengthOf(Pad ) uint32 //	t
-Logon
-    , // a // b
-@tag( 4294967296 ) T	`doc` ,
-len  ,
-body { repeat
-    o { match i8i8 as	body{ 65535
-:lengthOf,
-[ ""\n"" ] : i64_ 3
-: asx , [
-""packet""
-,
-    /// triple
-    007	,
-""{,}""  , ""// no comment""
-] : repeatCount ,[ ""// no comment"",
-    7
-    ,	""\" ++ [233]%N ++ runes_of_ascii """, 0123456789 //
-, ""a\""b"" ] : roots
-} ,
-match repeatCount as As
-{ """"
-    /// triple
-    : //	t
-o ,
-    }
-, } , zchar[ 0 ]BodyLength `` ,
-    lengthOf,}, i16 Z9_ , } packet
-    tag { @tag(
-    // `tick` ""quote"" 'q'
-    1 ) repeat float i8i8`" ++ [28040; 24687; 31867; 22411]%N ++ runes_of_ascii "` // `tick` ""quote"" 'q'
-,  @rightPad ( )@lengthOf( _x) @rightPad ( // c
-'0'
-)
-Packet, Foo /// triple
-@lengthOf(
-    u128
-) `doc` ,
-@tag( 007 ) // packet A { u8 x, }
-string repeatCount , o {match leftPad as lengthOf {
-[
-    0123456789  ,
-""1"" ] :
-    x_y_z  , [ """ ++ [128512]%N ++ runes_of_ascii """] : i8i8
-, [// @lengthOf(
-""a\""b"" , ""a	b"" ]
-: Foo , [ ""\" ++ [233]%N ++ runes_of_ascii """ ] : Pad,
-    [ ""a	b"" , 42
-//
-//	t
-, """ ++ [233]%N ++ runes_of_ascii "t" ++ [233]%N ++ runes_of_ascii """ ,	3 ,	""" ++ [28040; 24687]%N ++ runes_of_ascii """,
-    00 ,
-7 ]  : packetx ,
-42
-    //x
-    : falsey,}
-,},}packet body
-{ }")).
-Eval vm_compute in ("<<<M4040>>>" ++ check (runes_of_ascii "
-options { i64_
-
-= 
-  // c
-  	// trailing space 
-""x y"";chars 
-    // a // b
-  //	t
-  = 65535
-metadata	= i32 ; // trailing space 
-
-  } 
-root
-    packet 
-chars{
-    @lengthOf(/// triple
-chars 
-	    // " ++ [128512]%N ++ runes_of_ascii " emoji
-	  )
-repeat
-
-Logon
-
-// " ++ [128512]%N ++ runes_of_ascii " emoji
-  //	t
-    { string  len	@lengthOf(crc
-
-) //x
-	,
-u128
-@lengthOf( x)
-    ,
-}
-,
-	}
-packet
-
-chars 
-{
-	@lengthOf(
-	charz	) @calculatedFrom(""" ++ [233]%N ++ runes_of_ascii "t" ++ [233]%N ++ runes_of_ascii """
-
-)
-    @calculatedFrom(
-
-    """ ++ [128512]%N ++ runes_of_ascii """ )repeat
-	    // " ++ [128512]%N ++ runes_of_ascii " emoji
-      repeatCount
-	Packet
-	`u8 x,`	,
-
-    match	rootA as
-    /// triple
-	falsey
-
-    {	""{,}""	: As  , 
-00
-:	// " ++ [128512]%N ++ runes_of_ascii " emoji
-      lengthOf 
-, 
-""\n""
-    :  u8x
-
-,
-""" ++ [233]%N ++ runes_of_ascii "t" ++ [233]%N ++ runes_of_ascii """
-
-:
-T
-3 : 
-      /// triple
-    calculatedFrom  ,
-}, 
-@leftPad 
-(  )
-	@calculatedFrom(  ""it's"" 
-) 
-repeat
-    crc
-stringy
-`
-`
-	, @lengthOf(	// `tick` ""quote"" 'q'
-    metadata
-    )
-
-repeat falsey
-{ char[]Foo
-`a\`
-
-    ,	match
-leftPad	//	t
-  	as
-BodyLength
-	{ ""CRC32""  :
-
-body
-, 
-""1""
-	:
-
-    x
-	, 
-""a\\"" :
-	calculatedFrom
-    ,	[ 
-    // @lengthOf(
-		1,  00
-] :float  }
-
-,  repeat char  calculatedFrom	,Foo
-	{
-    u64 Header	`
-`	,
-},}
-    ,  }")).
-Eval vm_compute in ("<<<M1060>>>" ++ check (runes_of_ascii "packet i64_{
-@tag( 4294967296
-) As
-{ repeat f32
-BodyLength ,
-// trailing space 
-// a // b
-i64_ @calculatedFrom(""{,}""
-// @lengthOf(
-// a // b
-) ,	repeatCount
-packetx `" ++ [28040; 24687; 31867; 22411]%N ++ runes_of_ascii "`
-    ,}, @lengthOf( _x )
-options1 ,
-    //	t
-    options1 , @rightPad (
-'0') repeat // packet A { u8 x, }
-string Foo
-    ,
-    char[] string_@calculatedFrom(""a	b"" )// c
-`u8 x,` ,
-char[
-// packet A { u8 x, }
-// @lengthOf(
-65535]  x_y_z ,	repeat
-    options1 packetx/// triple
-, @lengthOf(
-matchKey )
-@calculatedFrom( ""\" ++ [233]%N ++ runes_of_ascii """) repeat
-    Logon // trailing space 
-asx , matchKey
-@lengthOf(
-// `tick` ""quote"" 'q'
-//
-lengthOf  )
-`u8 x,`
-    , // packet A { u8 x, }
-}root packet repeatCount{ @rightPad ( '\x00' ) u8 Packet `// not a comment`
-    , @calculatedFrom( ""CRC32""
-) i8i8 , repeat u{// `tick` ""quote"" 'q'
-char[255]u128 , i16
-    Packet `doc`, zchar[
-    3//
-]  BodyLength , char[]
-u
-    `say ""hi""`
-    ,
-} , int32 float ,i8 Logon , @lengthOf( rootA)  zchar[42 ] int @lengthOf( lengthOf ) , //
-repeat	char[ 42 ]
-metadata ,
-} packet falsey{ }
-")).
-Eval vm_compute in ("<<<M3633>>>" ++ check (runes_of_ascii "options {
-    StringPrefixLenType = u64;
-    ArrayPrefixLenType = u16;
-    FixedStringPadChar = ' ';
-}
-packet Logon {
-    i32 msgKind,
-    repeat InOrderid65 {
-        u8 pad0,
-    },
-    i8 tag7,
-    @leftPad(' ') char[12] x,
-}
-packet Leg {
-    char[] f1,
-    repeat char[5] Px,
-    InQty34 {
-        repeat char[6] Qty,
-        char[7] seqNo,
-        string count,
-    },
-    Logon,
-}
-packet Party {
-    @leftPad('0') char[10] OrderId,
-    string Tail,
-}
-packet Fill {
-    zchar[5] venue,
-    zchar[3] clOrdID,
-    InRef95 {
-        InLastpx25 {
-            u8 pad0,
-        },
-        float64 OrderId,
-        i32 f1,
-        float32 x,
-        char[] seqNo,
-    },
-    repeat string seqNo,
-}
-root packet Heartbeat {
-    repeat Leg,
-    u32 seqNo,
-    u16 tag7,
-    u32 Flags @lengthOf(Body),
-    match tag7 as Body {
-        [195, 75] : Party,
-        171 : Fill,
-        78 : Logon,
-        142 : Leg,
-    },
-    u32 Note @calculatedFrom(""CR\
-C32""),
-}
-")).
-Eval vm_compute in ("<<<M394>>>" ++ check (runes_of_ascii "
-MetaData As	{ zchar[ 007	]
-BodyLength `u8 x,` , char[]
-    o
-,
-T stringy ,	f32a
-    As
-, }root packet	Logon{int32
-charz @calculatedFrom(	""`tick`"" ) `crlf
-line`,
-match uint8x as options1 {
-10
-: Logon 4294967296
-// `tick` ""quote"" 'q'
-// `tick` ""quote"" 'q'
-: pack, 10
-    // c
-    :
-    BodyLength  ,
-0 : options1 , 0:calculatedFrom
-, [
-""it's""
-,
-0, ""a\""b"" //
-, ""a	b""	, 0123456789 ,
-00 , 3 ,
-007 // " ++ [27880; 37322]%N ++ runes_of_ascii "
-]
-    :packetx	}, @leftPad// packet A { u8 x, }
-(	'\x00'
-    ) @tag(
-4294967296 )
-    repeat uint8 Packet
-`it's` ,// packet A { u8 x, }
-zchar[
-    0123456789 ] len
-    // " ++ [27880; 37322]%N ++ runes_of_ascii "
-    @lengthOf( A  )
-, zchar[// " ++ [128512]%N ++ runes_of_ascii " emoji
-0
-    ]u @calculatedFrom(
-""x y"" ) , @tag( 00 )	match zchar as
-o { 4294967296: uint8x
-[ ""CRC32""
-    , ""// no comment""
-// a // b
-// @lengthOf(
-, 4294967296 , 0123456789
-    ] :
-BodyLength ,}, @leftPad( '0' ) @lengthOf( BodyLength  )
-@tag(0 ) calculatedFrom`line1
-line2`
-,}")).
-Eval vm_compute in ("<<<M4144>>>" ++ check (runes_of_ascii "MetaData As {
-    zchar[007] BodyLength `u8 x,`,
-    char[] o,
-    T stringy,
-    f32a As,
-}
-
-root packet Logon {
-    int32 charz @calculatedFrom(""`tick`"") `crlf
-    line`,
-    match uint8x as options1 {
-        10 : Logon,
-        4294967296 : pack,
-        10 : BodyLength,
-        0 : options1,
-        0 : calculatedFrom,
-        [
-            0, 0123456789, 00, 3, 007,
-            ""it's"", ""a\""b"", ""a	b""
-        ] : packetx,
-    },
-    @leftPad('\x00')
-    @tag(4294967296)
-    repeat uint8 Packet `it's`,// packet A { u8 x, }
-    zchar[0123456789] len @lengthOf(A),
-    zchar[0] u @calculatedFrom(""x y""),
-    @tag(00)
-    match zchar as o {
-        4294967296 : uint8x,
-        [4294967296, 0123456789, ""CRC32"", ""// no comment""] : BodyLength,
-    },
-    @leftPad('0')
-    @lengthOf(BodyLength)
-    @tag(0)
-    calculatedFrom `line1
-    line2`,
-}")).
-Eval vm_compute in ("<<<M4498>>>" ++ check (runes_of_ascii "//
-packet falsey {
-    x_y_z @calculatedFrom(""CRC32"") `{ , }`,
-    repeat int8 i64_,
-    char[] f32a,
-    @lengthOf(calculatedFrom)
-    repeat string f32a `{ , }`,
-    match pack as u128 {
-        [10, 7] : calculatedFrom,
-        """ ++ [128512]%N ++ runes_of_ascii """ : options1,
-        1 : calculatedFrom,
-        ""\" ++ [233]%N ++ runes_of_ascii """ : body,
-    },
-    @leftPad(' ')
-    o packetx ``,
-    @calculatedFrom(""{,}"")
-    char[7] u,
-    repeat u _x,
-    Z9_,
-    @leftPad(' ')
-    string asx,
-}
-
-packet zchar {
-    zchar[1] As `two words`,
-    zchar[7] charz @calculatedFrom(""" ++ [128512]%N ++ runes_of_ascii """),// c
-    @tag(4294967296)
-    char[] uint8x @calculatedFrom(""`tick`""),
-    repeat char metadata,
-    zchar[65535] metadata,
-    stringy i64_,
-    @leftPad('\x00')
-    string_ @lengthOf(options1),
-    @tag(65535)
-    float64 Foo @calculatedFrom(""abc"") `{ , }`,
-}
-
-options {
-}")).
-Eval vm_compute in ("<<<M4559>>>" ++ check (runes_of_ascii "packet 
-      //	t
-  As
-    { 
-@tag(	10
-    ) 
-@lengthOf(
-
-chars )  zchar{ 
-  //x
-    // `tick` ""quote"" 'q'
-  	metadata{ 
-Header  `it's` 
-, 
-match
-
-    body
-as
-i64_ 	 // trailing space 
-      {
-
-""// no comment"" 
-:
-
-    packetx
-	, }/// triple
-
-,
-
-match
-
-repeatCount
-	as
-    asx	{
-    255 
-:
-Foo,	3	:
-int
-
-,""1"" : chars ,}
-    ,
-
-uint32
-repeatCount 
-@lengthOf( 
-	    // c
-  BodyLength) ``
-    ,} , roots,
-
-repeat	rootA
-``
-    ,
-char
-MetaDataX
-@lengthOf(
-
-crc) 
-,  }
-
-, 
-        // a // b
-	_x {
-
-match As
-
-as
-
-    Foo  // @lengthOf(
-
-  {1:
-    // " ++ [27880; 37322]%N ++ runes_of_ascii "
-
-	stringy
-	    //x
-    //	t
-	,
-
-} ,}
-, u8
-    Foo  ,
-    @calculatedFrom(
-""""
-)
-BodyLength
-
-,	char[
-007  ]  Z9_@calculatedFrom( 
-""CRC32"" 
-) ,
-    lengthOf  ,
-i32 	 //x
-    f32a`{ , }`
-,
-
-    }
-
-")).
-Eval vm_compute in ("<<<M659>>>" ++ check (runes_of_ascii "options
-    {
-metadata = ""a\""b""
-;
-    int
-    = true
-; chars ='\x00';
-    string_ = '\x00'
-; }packet x { match As as
-    tag{ 1 :zchar, ""a	b"" // packet A { u8 x, }
-: len,
-} , Pad i64_ , // " ++ [27880; 37322]%N ++ runes_of_ascii "
-@tag(3
-)leftPad {// trailing space 
-body , } ,char[]i8i8 `{ , }` ,charz { repeat
-u16
-zchar `two words` ,}
-//
-//	t
-, int64 Z9_// " ++ [27880; 37322]%N ++ runes_of_ascii "
-@calculatedFrom( ""a\\""
-)
-    , @rightPad ( '\x00'
-    ) metadata@lengthOf(i64_// `tick` ""quote"" 'q'
-) , @lengthOf( // @lengthOf(
-int
-) u32	u128 , // packet A { u8 x, }
-@tag( 10 )
-// " ++ [27880; 37322]%N ++ runes_of_ascii "
-// " ++ [128512]%N ++ runes_of_ascii " emoji
-@rightPad (
-    '\x00') //
-@tag( 007)
-float {	int32 Pad`" ++ [233]%N ++ runes_of_ascii "`  , i16	options1
-`` , repeatCount// @lengthOf(
-,	chars @lengthOf(  pack) ,
-    } ,
-repeat int
-{zchar[ 10]
-u `two words` , i64 Logon,
-}, }
-")).
-Eval vm_compute in ("<<<M57>>>" ++ check (runes_of_ascii "root
-packet string_{ i32 uint8x @calculatedFrom( ""\" ++ [233]%N ++ runes_of_ascii """ ) , body ,@tag(// a // b
-0  ) Z9_
-    @calculatedFrom(
-""" ++ [28040; 24687]%N ++ runes_of_ascii """),
-@lengthOf( stringy	)  falsey
-    { repeat trueish { u64 i8i8 , }
-,  } ,
-char[] leftPad
-@lengthOf( falsey
-    // c
-    ),	@calculatedFrom(	""a	b""
-    )
-//x
-// " ++ [27880; 37322]%N ++ runes_of_ascii "
-char[]  BodyLength,//x
-match
-falsey as crc{255 :falsey ,[
-//x
-// @lengthOf(
-7,7] // @lengthOf(
-:
-//
-//x
-crc, ""a	b""// `tick` ""quote"" 'q'
-: i8i8,255  : a1
-, } ,Logon@lengthOf( _x // `tick` ""quote"" 'q'
-)
-, match	lengthOf as  o{ ""packet"" :	x_y_z ,} , } options
-{
-//	t
-// `tick` ""quote"" 'q'
-calculatedFrom
-=
-""// no comment""  ;
-    x
-    ='\x00' a1
-= ""abc"" ; x_y_z=
-65535 ; } packet Foo
-{ } packet o { }")).
-Eval vm_compute in ("<<<M3695>>>" ++ check (runes_of_ascii "root
-
-    packet  packetx
-
-    {string_
-leftPad  ,
-// " ++ [27880; 37322]%N ++ runes_of_ascii "
-//x
-  }
-root
-
-    packet  o  {
-
-x 
-metadata
-`it's`,uint8
-metadata
-
-    ,i32  trueish
-	, i64_
-
-    @calculatedFrom(	""`tick`"")
-
-, // packet A { u8 x, }
-match  matchKey
-    as
-    repeatCount  { 
-[ 	 //x
-""`tick`""
-]	: Pad
-, 10
-:
-    // `tick` ""quote"" 'q'
-	  charz ,
-7	: msg_type 	 // c
-    }, 
-float64 body
-
-@calculatedFrom(""it's""  )  ,
-    x_y_z @lengthOf( Header/// triple
-    ) ,
-
-    body 
-@calculatedFrom(	""" ++ [28040; 24687]%N ++ runes_of_ascii """ )
-	`{ , }`,
-    }
-    options
-    {}  // " ++ [128512]%N ++ runes_of_ascii " emoji
-options 
-{
-
-Z9_	/// triple
-    =
-
-true  ;Z9_=
-
-    false
-
-    leftPad
-	=	//x
-    ' ' 
-As 
-=char[] ;}
-")).
-Eval vm_compute in ("<<<M186>>>" ++ check (runes_of_ascii "packet Packet { @tag(	65535 ) @leftPad ( ' '
-    )
-@tag( 255
-    /// triple
-    )
-    uint8
-len
-    @lengthOf( T), int32 u8x , @lengthOf( rootA )float32 i64_
-`u8 x,` , } packet// c
-int { repeat	i8i8
-{lengthOf
-    @lengthOf( int)`line1
-line2`
-, string	falsey `
-` ,uint16
-// `tick` ""quote"" 'q'
-// trailing space 
-roots
-@lengthOf(
-charz), } , }options
-    { Foo = ' '	len  = """ ++ [128512]%N ++ runes_of_ascii """
-; chars= u64 ;
-//x
-//
-uint8x // a // b
-=	""" ++ [128512]%N ++ runes_of_ascii """
-    // trailing space 
-    ;metadata= ' ' ; }
-    // " ++ [27880; 37322]%N ++ runes_of_ascii "
-    MetaData Header
-    // " ++ [27880; 37322]%N ++ runes_of_ascii "
-    {
-i16
-    matchKey,Packet Packet `u8 x,`  , }packet u128 {uint8x
-@lengthOf(charz) `u8 x,`	, }
-")).
-Eval vm_compute in ("<<<M255>>>" ++ check (runes_of_ascii "MetaData metadata { // `tick` ""quote"" 'q'
-msg_type
-Pad
-    , int8
-calculatedFrom, } MetaData msg_type{// packet A { u8 x, }
-}
-packet // a // b
-len {_x , }
-options { As =
-// a // b
-// c
-true
-; // " ++ [27880; 37322]%N ++ runes_of_ascii "
-repeatCount
-    ='\x00' ; uint8x // packet A { u8 x, }
-= ""\" ++ [233]%N ++ runes_of_ascii """;
-    chars= true
-; }
-// " ++ [27880; 37322]%N ++ runes_of_ascii "
-// `tick` ""quote"" 'q'
-packet crc {matchKey @lengthOf( float	) ,
-@leftPad ( '0'
-    ) match	i8i8 as x
-{[ // " ++ [128512]%N ++ runes_of_ascii " emoji
-65535 ,
-    // trailing space 
-    10 , 4294967296
-] :repeatCount ,  ""// no comment"": stringy
-    ,} ,
-    @calculatedFrom(	""a	b""
-)crc
-// " ++ [27880; 37322]%N ++ runes_of_ascii "
-// trailing space 
-,
-    /// triple
-    }
-
-")).
-Eval vm_compute in ("<<<M1087>>>" ++ check (runes_of_ascii "  packet
-    falsey { float64	calculatedFrom`
-`, /// triple
-@tag(
-42 )
-repeatCount {
-match repeatCount as  A	{
-    0 : f32a
-    ,
-    } ,
-uint16 f32a @calculatedFrom(
-""a\\"" )  `// not a comment`  , crc {
-    char[ 3 ]
-Logon // `tick` ""quote"" 'q'
-@calculatedFrom(
-""packet"" ), repeat
-u128
-    {zchar[
-    42 ]lengthOf `crlf
-line` ,Pad roots `line1
-line2`
-,
-}
-// packet A { u8 x, }
-// trailing space 
-,
-// packet A { u8 x, }
-// `tick` ""quote"" 'q'
-}
-,}	,
-} packet uint8x	{repeat u8
-body , }packet
-asx	{
-zchar[ 255]
-// " ++ [128512]%N ++ runes_of_ascii " emoji
-// trailing space 
-asx ,}
-")).
-Eval vm_compute in ("<<<M861>>>" ++ check (runes_of_ascii "MetaData trueish
-    { char[]  i8i8 `" ++ [28040; 24687; 31867; 22411]%N ++ runes_of_ascii "` ,
-} packet calculatedFrom
-{ @calculatedFrom(""CRC32"")
-@lengthOf(u128 )
-    metadata // @lengthOf(
-stringy `u8 x,`
-, string
-i8i8@lengthOf( rootA
-    // `tick` ""quote"" 'q'
-    ) , @calculatedFrom(	""CRC32"" ) @calculatedFrom(	""packet"")@calculatedFrom(""""
-) zchar[42 ] body `" ++ [233]%N ++ runes_of_ascii "` , Packet , uint16  Logon ,
-rootA len
-`u8 x,` ,
-T @lengthOf(
-// a // b
-// " ++ [27880; 37322]%N ++ runes_of_ascii "
-T), @rightPad ( ) repeat char[ // @lengthOf(
-255 ]//
-x_y_z
-,repeat uint16 len
-,
-@rightPad
-    ( ) calculatedFrom charz `crlf
-line`,
-}
-")).
-Eval vm_compute in ("<<<M4440>>>" ++ check (runes_of_ascii "packet  A {
-repeat  lengthOf{
-
-    len
-    ,
-    } , 
-@tag( 	 // trailing space 
-      42	)
-
-    match Header
-	as 
-falsey
-{	[  """ ++ [128512]%N ++ runes_of_ascii """ //
-		,
-    ""\n""
-    ,4294967296
-
-    ]	: 
-Packet
-
-1:
-falsey ,
-""\" ++ [233]%N ++ runes_of_ascii """ 	 // " ++ [128512]%N ++ runes_of_ascii " emoji
-  : charz
-
-    }
-,  zchar[
-255
-] 
-  // packet A { u8 x, }
-	// trailing space 
-  rootA,	repeat  char[
-
-10 ]  // `tick` ""quote"" 'q'
-f32a 
-// trailing space 
-    //x
-  , @calculatedFrom(
-	""// no comment""
-
-) char[
-    00]trueish 
-@calculatedFrom( 
-// " ++ [27880; 37322]%N ++ runes_of_ascii "
-
-""a\""b"" 
-) `line1
-line2`
-	, }
-")).
-Eval vm_compute in ("<<<M4273>>>" ++ check (runes_of_ascii "root packet Foo {
-    match As as rootA {
-        ""CRC32"" : packetx,
-        4294967296 : Header,
-        [0123456789, 255, 0, ""\n"", ""packet""] : BodyLength,
-        [
-            7, 255, 65535, 00, 3,
-            ""packet"", ""abc""
-        ] : f32a,
-    },
-    f32 calculatedFrom @lengthOf(metadata) `crlf
-        line`,
-}//	t
-
-options {
-    // c
-    x_y_z = 7
-    body = zchar[1];
-}
-
-packet i8i8 {
-    string_ {
-        u32 options1 @calculatedFrom(""1""),
-    },
-}// `tick` ""quote"" 'q'")).
-Eval vm_compute in ("<<<M4545>>>" ++ check (runes_of_ascii "packet A {
-    match packetx as As {
-        007 : body,
-        [255, 65535, ""\" ++ [233]%N ++ runes_of_ascii """, ""a	b""] : float,
-        [255, ""a\""b""] : i64_,
-    },
-    @calculatedFrom(""\" ++ [233]%N ++ runes_of_ascii """)
-    @calculatedFrom(""CRC32"")
-    //
-    Z9_ @calculatedFrom(""it's"") `
-        `,
-}
-
-MetaData calculatedFrom {
-    i16 len,
-    zchar[42] A `{ , }`,
-    string tag `doc`,
-    float matchKey,
-    char[7] len `
-        `,
-}
-
-root packet int {
-    @lengthOf(int)
-    i8 u @lengthOf(len),
-}
-
-options {
-}")).
-Eval vm_compute in ("<<<M3581>>>" ++ check (runes_of_ascii "// top
-packet // c0
-A
-    // c1
-{ // c2a
-  // c2b
-u8 // c3a
-  // c3b
-a // c4a
-  // c4b
-, } packet // c7
-B
-    // c8
-{ // c9
-u16 // c10
-b , // c12a
+u8 // c12a
   // c12b
-} // c13
-root // c14a
-  // c14b
-packet P // c16
-{ u8 // c18
-K // c19
-, // c20a
-  // c20b
-match // c21a
-  // c21b
-K
+;
+    // c13
+FixedStringPadChar // c14
+= '0' // c16a
+  // c16b
+;
+    // c17
+} // c18
+packet Logout
+    // c20
+{
+    // c21
+repeat
     // c22
-as // c23a
-  // c23b
-M
+i16 // c23
+f1
     // c24
-{
+,
     // c25
-1 // c26a
+string // c26a
   // c26b
-: // c27
-A // c28
-, 1 : // c31a
-  // c31b
-B // c32
-, // c33
-} // c34
-,
+Ref // c27
+, // c28a
+  // c28b
+@rightPad // c29
+( '\x00' // c31
+)
+    // c32
+char[ // c33a
+  // c33b
+9
+    // c34
+]
     // c35
-} // c36
-")).
-Eval vm_compute in ("<<<M1211>>>" ++ check (runes_of_ascii "packet
-f32a {
-i64_  falsey ,match
-/// triple
-//
-i8i8 as _x { // " ++ [27880; 37322]%N ++ runes_of_ascii "
-0
-    //x
-    : Logon,[65535 , ""x y""
-    ]:Header ,
-4294967296//x
-: Foo, /// triple
+Tail , // c37a
+  // c37b
+repeat // c38
+char[ 6
+    // c40
+] // c41
+Flags // c42a
+  // c42b
+, // c43
+repeat
+    // c44
+char[ // c45
+3 // c46
+] // c47
+Acct , }
+    // c50
+packet Party // c52a
+  // c52b
+{ // c53a
+  // c53b
+char[ 2
+    // c55
+]
+    // c56
+f1
+    // c57
+,
+    // c58
+u8
+    // c59
+Side2
+    // c60
+, // c61a
+  // c61b
+@leftPad // c62
+(
+    // c63
+' '
+    // c64
+) // c65
+char[ // c66a
+  // c66b
+1 ] // c68a
+  // c68b
+venue , // c70
+} packet
+    // c72
+Order // c73a
+  // c73b
+{ // c74a
+  // c74b
+repeat // c75
+i64 Ref , InPx62 { i32 // c81
+OrderId , // c83
 } ,
-@tag( 0123456789 )	u8x msg_type
-`say ""hi""`  , }  packet
-    // a // b
-    Z9_  {
-    repeatCount leftPad  `two words` // `tick` ""quote"" 'q'
-,
-}
-    MetaData
-calculatedFrom{ u charz `{ , }`
-,
-    u64 T //x
-`tab	here`, Foo	options1 `" ++ [233]%N ++ runes_of_ascii "` ,
-char[] x
-`doc` ,i8i8
-u8x  ,}
-
-")).
-Eval vm_compute in ("<<<M3892>>>" ++ check (runes_of_ascii "
-packet  x {
-
-    lengthOf	rootA 
-, @rightPad
-(
-
-'0' 
-) i8	asx
-	@lengthOf(	calculatedFrom // a // b
-    )
-	, 
-@lengthOf( Pad
-)repeat //x
-	int16
-trueish  // c
-``// " ++ [27880; 37322]%N ++ runes_of_ascii "
-,
-
-@calculatedFrom( """ ++ [128512]%N ++ runes_of_ascii """)  @tag(
-0
-)
-@lengthOf( 	 // a // b
-    matchKey  )
-string
-MetaDataX `doc` , 
-i16// `tick` ""quote"" 'q'
-options1
-    @lengthOf( 
-      // " ++ [27880; 37322]%N ++ runes_of_ascii "
-
-	u8x
-    // " ++ [128512]%N ++ runes_of_ascii " emoji
-    )
-
-`a\` 
-,  u128  u128 `line1
-line2`
-    ,}")).
-Eval vm_compute in ("<<<M3756>>>" ++ check (runes_of_ascii "packet
-	Packet 
-      // " ++ [128512]%N ++ runes_of_ascii " emoji
-	//	t
-  { @leftPad	( '\x00' ) 
-
-    // `tick` ""quote"" 'q'
-  match
-	trueish
-as
-
-Pad
-
-    {
-65535
-: 
-Header  ,	00	: // `tick` ""quote"" 'q'
-roots
-    [""" ++ [233]%N ++ runes_of_ascii "t" ++ [233]%N ++ runes_of_ascii """
-, 
-""1"" ,
-	""packet""
-,
-    42 ,
-0 , 
-""x y"" 
-,
-
-""" ++ [128512]%N ++ runes_of_ascii """
-,	""a	b""
-
-]:
-BodyLength  , """ ++ [28040; 24687]%N ++ runes_of_ascii """
-
-    :Packet
-	,  [ 
-""" ++ [128512]%N ++ runes_of_ascii """
-    ] :body
-    }
-, } //x
-  options 
-      // a // b
-  	{/// triple
-	As= u16
-    }
-")).
-Eval vm_compute in ("<<<M4030>>>" ++ check (runes_of_ascii "
-options
-	{ 	 // a // b
-    Header //
-	=""// no comment"" As= 
-""`tick`"" Header =
-
-    f32 // packet A { u8 x, }
-    ;
-leftPad  = 10 o
-= '\x00' } 	 // " ++ [128512]%N ++ runes_of_ascii " emoji
-		packet
-
-    metadata  
-  //x
-    	/// triple
-	{
-    @rightPad (
-
-    '0'
-) 
-@leftPad
-	    // c
-  // trailing space 
-	(
-	'\x00')  @rightPad 
-(
-    ) string string_
-    `say ""hi""`
-,}  options
-	{
-}
-")).
-Eval vm_compute in ("<<<M1037>>>" ++ check (runes_of_ascii "packet crc {
-    match string_ as matchKey {
-7 : matchKey ,
-    007 :
-x//	t
-, 65535 :	BodyLength
-[
-    00
-    , 3 ] :
-u128
-,[  255 , 0  ] :
-leftPad ,
-""it's"":
-//x
-// trailing space 
-u128 ,}
-    ,
-@calculatedFrom( """"
-//x
-/// triple
-)
-match MetaDataX as int {[ 3
-] :
-As
-    ,
-},
-    } packet falsey {
-}//
-options { metadata
-=// " ++ [128512]%N ++ runes_of_ascii " emoji
-255//x
-; }
-")).
-Eval vm_compute in ("<<<M622>>>" ++ check (runes_of_ascii "packet Pad
-    { @lengthOf(MetaDataX )
-roots a1	, }packet
-tag { uint8 packetx ,@calculatedFrom( """") @rightPad( )string Z9_ @calculatedFrom(""x y""
-/// triple
-// " ++ [27880; 37322]%N ++ runes_of_ascii "
-)`two words`
-,f32
-falsey
-    // packet A { u8 x, }
-    , }
-    //
-    root packet
-Pad { len Z9_
-, // " ++ [27880; 37322]%N ++ runes_of_ascii "
-@lengthOf( o
-    ) u32
-    x
-, A	`// not a comment` , // a // b
-}
-")).
-Eval vm_compute in ("<<<M1918>>>" ++ check (runes_of_ascii "MetaData
-    u { }  options {
-// c
-// @lengthOf(
-float = int8 ;rootA =@calculatedFrom( ; As =	int16 // `tick` ""quote"" 'q'
-repeatCount
-    // trailing space 
-    =
-    int16
-; u8x =
-    //	t
-    '\x00' ; } options	{
-    repeatCount
-= 0
-u128
-    //
-    = false ; i64_
-// trailing space 
-// `tick` ""quote"" 'q'
-= '0' ; //	t
-}
-")).
-Eval vm_compute in ("<<<M1958>>>" ++ check (runes_of_ascii "MetaData
-    u { }  options {
-// c
-// @lengthOf(
-float = int8 ;rootA =false ; As =	int16 // `tick` ""quote"" 'q'
-repeatCount
-    // trailing space 
-    =
-    int16
-packet u8x =
-    //	t
-    '\x00' ; } options	{
-    repeatCount
-= 0
-u128
-    //
-    = false ; i64_
-// trailing space 
-// `tick` ""quote"" 'q'
-= '0' ; //	t
-}
-")).
-Eval vm_compute in ("<<<M1921>>>" ++ check (runes_of_ascii "MetaData
-    u { }  options {
-// c
-// @lengthOf(
-float = int8 ;rootA =false ; ; As =	int16 // `tick` ""quote"" 'q'
-repeatCount
-    // trailing space 
-    =
-    int16
-; u8x =
-    //	t
-    '\x00' ; } options	{
-    repeatCount
-= 0
-u128
-    //
-    = false ; i64_
-// trailing space 
-// `tick` ""quote"" 'q'
-= '0' ; //	t
-}
-")).
-Eval vm_compute in ("<<<M2060>>>" ++ check (runes_of_ascii "MetaData
-    u { }  options {
-// c
-// @lengthOf(
-float = int8 ;rootA =false ; As =	int16 // `tick` ""quote"" 'q'
-repeatCount
-    // trailing space 
-    =
-    int16
-; u8x =
-    //	t
-    '\x00' ; } options	{
-    repeatCount
-= 0
-u128
-    //
-    = false ; i64_
-// trailing space 
-// `tick` ""quote"" 'q\'
-= '0' ; //	t
-}
-")).
-Eval vm_compute in ("<<<M1967>>>" ++ check (runes_of_ascii "MetaData
-    u { }  options {
-// c
-// @lengthOf(
-float = int8 ;rootA =false ; As =	int16 // `tick` ""quote"" 'q'
-repeatCount
-    // trailing space 
-    =
-    int16
-; u8x '\x00'
-    //	t
-    = ; } options	{
-    repeatCount
-= 0
-u128
-    //
-    = false ; i64_
-// trailing space 
-// `tick` ""quote"" 'q'
-= '0' ; //	t
-}
-")).
-Eval vm_compute in ("<<<M1930>>>" ++ check (runes_of_ascii "MetaData
-    u { }  options {
-// c
-// @lengthOf(
-float = int8 ;rootA =false ; As 	int16 // `tick` ""quote"" 'q'
-repeatCount
-    // trailing space 
-    =
-    int16
-; u8x =
-    //	t
-    '\x00' ; } options	{
-    repeatCount
-= 0
-u128
-    //
-    = false ; i64_
-// trailing space 
-// `tick` ""quote"" 'q'
-= '0' ; //	t
-}
-")).
-Eval vm_compute in ("<<<M1885>>>" ++ check (runes_of_ascii "MetaData
-    u { }  options {
-// c
-// @lengthOf(
- = int8 ;rootA =false ; As =	int16 // `tick` ""quote"" 'q'
-repeatCount
-    // trailing space 
-    =
-    int16
-; u8x =
-    //	t
-    '\x00' ; } options	{
-    repeatCount
-= 0
-u128
-    //
-    = false ; i64_
-// trailing space 
-// `tick` ""quote"" 'q'
-= '0' ; //	t
-}
-")).
-Eval vm_compute in ("<<<M1995>>>" ++ check (runes_of_ascii "MetaData
-    u { }  options {
-// c
-// @lengthOf(
-float = int8 ;rootA =false ; As =	int16 // `tick` ""quote"" 'q'
-repeatCount
-    // trailing space 
-    =
-    int16
-; u8x =
-    //	t
-    '\x00' ; } options	{
-    
-= 0
-u128
-    //
-    = false ; i64_
-// trailing space 
-// `tick` ""quote"" 'q'
-= '0' ; //	t
-}
-")).
-Eval vm_compute in ("<<<M445>>>" ++ check (runes_of_ascii "packet  calculatedFrom { @calculatedFrom( ""a	b"" ) T // packet A { u8 x, }
-{ zchar[ 0123456789 ]
-    falsey `say ""hi""`
-, match o as
-    // " ++ [27880; 37322]%N ++ runes_of_ascii "
-    matchKey {
-    [ ""`tick`""	,
-    //
-    ""it's""
-] :int , 1 :	float // a // b
-, } ,string Foo @calculatedFrom( ""a\\""), // `tick` ""quote"" 'q'
-} ,	}
-")).
-Eval vm_compute in ("<<<M61>>>" ++ check (runes_of_ascii "options
-{  chars =
-    /// triple
-    char; o
-    /// triple
-    = true u128 =
-    ""x y"" ;} packet	chars
-    { @calculatedFrom( ""\n"" )repeat f64 packetx  ,  @tag(4294967296 ) float32 Header
-, zchar[
-007
-]float `// not a comment`
-    ,
-    }
-options  {
-stringy = zchar[ 7 ] ;}")).
-Eval vm_compute in ("<<<M39>>>" ++ check (runes_of_ascii "packet As
-{//
-@lengthOf(trueish ) uint8
-    repeatCount	,
-} options// c
-{As =	""1""matchKey
-=""x y"" ;
-Packet = ' '  }MetaData repeatCount { string BodyLength `{ , }` , char[
-    0123456789 ]//	t
-trueish
-    ,
-uint16 A, u32 falsey `two words`
-, } packet
-float{// c
-}
-
-")).
-Eval vm_compute in ("<<<M907>>>" ++ check (runes_of_ascii "packet asx {
-@calculatedFrom( ""x y"" ) packetx	stringy ,	}MetaData As
-{ int8
-    float `" ++ [233]%N ++ runes_of_ascii "`,
-int
-uint8x, zchar[ 007  ] a1 `two words` ,
-// a // b
-/// triple
-char[	10
-]msg_type	, uint32 matchKey `say ""hi""` ,
-// `tick` ""quote"" 'q'
-//x
-i32 zchar,
-    } options {
-}")).
-Eval vm_compute in ("<<<M1493>>>" ++ check (runes_of_ascii "packet
-//	t
-// trailing space 
-_x _x {
-// packet A { u8 x, }
-// c
-char[
-3
-    ] u8x @lengthOf(
-u8x ) , @calculatedFrom(""" ++ [128512]%N ++ runes_of_ascii """ // @lengthOf(
-)
-i16	Foo
-@lengthOf(	string_
-    )`doc`	, repeat	i64 metadata , @lengthOf( string_
-) i8 // c
-u  `line1
-line2`	,
-}
-")).
-Eval vm_compute in ("<<<M1649>>>" ++ check (runes_of_ascii "packet
-//	t
-// trailing space 
-_x {
-// packet A { u8 x, }
-// c
-char[
-3
-    ] u8x @lengthOf(
-u8x ) , @calculatedFrom(""" ++ [128512]%N ++ runes_of_ascii """ // @lengthOf(
-)
-i16	Foo
-@lengthOf(	string_
-    )`doc`	, repeat	i64 metadata , @lengthOf( string_
-) i8 // c
-u  `line1
-line2`	,
-as
-")).
-Eval vm_compute in ("<<<M1564>>>" ++ check (runes_of_ascii "packet
-//	t
-// trailing space 
-_x {
-// packet A { u8 x, }
-// c
-char[
-3
-    ] u8x @lengthOf(
-u8x ) , @calculatedFrom(""" ++ [128512]%N ++ runes_of_ascii """ // @lengthOf(
-)
-i16	@lengthOf(
-Foo	string_
-    )`doc`	, repeat	i64 metadata , @lengthOf( string_
-) i8 // c
-u  `line1
-line2`	,
-}
-")).
-Eval vm_compute in ("<<<M1577>>>" ++ check (runes_of_ascii "packet
-//	t
-// trailing space 
-_x {
-// packet A { u8 x, }
-// c
-char[
-3
-    ] u8x @lengthOf(
-u8x ) , @calculatedFrom(""" ++ [128512]%N ++ runes_of_ascii """ // @lengthOf(
-)
-i16	Foo
-@lengthOf(	string_
-    `doc`	, repeat	i64 metadata , @lengthOf( string_
-) i8 // c
-u  `line1
-line2`	,
-}
-")).
-Eval vm_compute in ("<<<M3701>>>" ++ check (runes_of_ascii "
-root
-packet
-    f32a{trueish falsey
-
-    ,
-tag
-
-    ,
-    repeat
-	// trailing space 
-	  Pad
+    // c85
+InNote53 // c86a
+  // c86b
+{ // c87
+InClordid80
+    // c88
 {
-	u32 i8i8
-@calculatedFrom( 
-""x y""),	}
+    // c89
+char[] Acct // c91a
+  // c91b
+, u32
+    // c93
+Px , // c95a
+  // c95b
+repeat // c96a
+  // c96b
+Party // c97
+, // c98
+} , // c100a
+  // c100b
+InPrice12 { u8 // c103a
+  // c103b
+pad0 , // c105a
+  // c105b
+} // c106a
+  // c106b
+, repeat // c108a
+  // c108b
+Logout ,
+    // c110
+InFlags23 // c111a
+  // c111b
+{ // c112a
+  // c112b
+repeat string
+    // c114
+seqNo // c115a
+  // c115b
+, // c116a
+  // c116b
+string // c117
+sym // c118
+, // c119a
+  // c119b
+int8 // c120a
+  // c120b
+Flags
+    // c121
+, // c122a
+  // c122b
+zchar[ // c123a
+  // c123b
+5 // c124
+] // c125
+lastPx // c126a
+  // c126b
+, // c127a
+  // c127b
+zchar[
+    // c128
+6
+    // c129
+] // c130a
+  // c130b
+Px
+    // c131
+, // c132a
+  // c132b
+} // c133a
+  // c133b
+, // c134a
+  // c134b
+char[ 10 ] Acct // c138a
+  // c138b
 ,
-@calculatedFrom(
-
-""// no comment""
-    )  @lengthOf(calculatedFrom
-
-    )	@tag( 65535)
-string T
-	, }")).
-Eval vm_compute in ("<<<M1545>>>" ++ check (runes_of_ascii "packet
-//	t
-// trailing space 
-_x {
-// packet A { u8 x, }
-// c
+    // c139
+InPx18 // c140
+{ zchar[
+    // c142
+2 // c143
+] // c144a
+  // c144b
+count , Party
+    // c147
+,
+    // c148
+} // c149a
+  // c149b
+, } // c151a
+  // c151b
+, // c152a
+  // c152b
 char[
-3
-    ] u8x @lengthOf(
-u8x ) , int16""" ++ [128512]%N ++ runes_of_ascii """ // @lengthOf(
-)
-i16	Foo
-@lengthOf(	string_
-    )`doc`	, repeat	i64 metadata , @lengthOf( string_
-) i8 // c
-u  `line1
-line2`	,
-}
+    // c153
+5
+    // c154
+]
+    // c155
+Side2
+    // c156
+, // c157a
+  // c157b
+char[ // c158
+1 // c159
+] // c160a
+  // c160b
+Acct // c161
+, } // c163a
+  // c163b
+root // c164a
+  // c164b
+packet // c165
+Ack // c166
+{ // c167
+u32 // c168
+Tail // c169
+, repeat // c171a
+  // c171b
+char[ // c172
+4 // c173
+] // c174
+msgKind // c175a
+  // c175b
+, repeat // c177a
+  // c177b
+Logout // c178
+, } // c180
 ")).
-Eval vm_compute in ("<<<M4250>>>" ++ check (runes_of_ascii "packet
-    i64_
-	{ match tag
-
-as
-
-x
-	{ """ ++ [128512]%N ++ runes_of_ascii """:
-
-string_ ,
-
-    ""a\\"" : rootA ,""abc""
+Eval vm_compute in ("<<<M837>>>" ++ check (runes_of_ascii "/// triple
+packet  options1
+    { @leftPad( '\x00'	) @rightPad( )	@rightPad
+(	'0' ) repeat BodyLength	{a1  falsey`u8 x,`//x
+,} , float32 calculatedFrom,	match trueish as
+    len{ ""a	b"" : //x
+Packet 7  :options1 ,
+7
+// trailing space 
+//x
+: _x , [ ""`tick`"" , 3,""" ++ [128512]%N ++ runes_of_ascii """	,
+// packet A { u8 x, }
+// @lengthOf(
+1
+, """ ++ [28040; 24687]%N ++ runes_of_ascii """,
+    0123456789 ,
+""{,}""
+    ,
+    ""1""]
 :
+    pack  , ""CRC32"": i8i8 , ""// no comment"" : trueish } ,metadata
+rootA `" ++ [28040; 24687; 31867; 22411]%N ++ runes_of_ascii "` , i32
+x_y_z `two words` ,
+    repeat i32 x_y_z
+`" ++ [28040; 24687; 31867; 22411]%N ++ runes_of_ascii "`  ,
+@leftPad
+    ( '0' ) @leftPad( '0'
+    )x @calculatedFrom(
+/// triple
+// trailing space 
+""\n"" ) `{ , }` ,
+@tag( 1 )
+    //
+    repeat u32 asx
+    ,	u8x @lengthOf( packetx
+)`two words` , } packet int{
+    zchar[
+// `tick` ""quote"" 'q'
+// c
+65535
+] leftPad
+, @lengthOf( /// triple
+repeatCount
+    ) @tag( 0123456789 )match
+    lengthOf  as // a // b
+calculatedFrom { [ ""a\\""
+] :
+    trueish
+,
+""x y"" : A, """ ++ [233]%N ++ runes_of_ascii "t" ++ [233]%N ++ runes_of_ascii """ :
+options1 , }
+    , string
+    uint8x
+`it's` ,
+    repeat uint16
+u8x  , } packet zchar
+{ // a // b
+zchar[ 255 ]
+    chars @calculatedFrom(  ""packet"" ) ,	match
+    BodyLength as //x
+x_y_z
+    { ""\n"" :u128 , 00 :Packet
+,
+}
+    ,@leftPad
+( '\x00'
+)repeat o
+{ Z9_ @lengthOf(asx )
+, }
+    , // trailing space 
+@calculatedFrom(""" ++ [28040; 24687]%N ++ runes_of_ascii """ )repeat
+    // `tick` ""quote"" 'q'
+    u64 trueish , i32
+charz,x	`tab	here`
+,
+    string // c
+u128// a // b
+`// not a comment` ,
+len {
+match chars as Foo
+// @lengthOf(
+// packet A { u8 x, }
+{
+    """":u""packet"" : matchKey , ""// no comment"" :
+packetx [
+65535
+,""it's"", """ ++ [128512]%N ++ runes_of_ascii """ , 0123456789 // trailing space 
+, ""a\\"" ,  ""a\\"" ,""" ++ [28040; 24687]%N ++ runes_of_ascii """ ,
+    ""{,}""  ]:
+len,
+    // " ++ [27880; 37322]%N ++ runes_of_ascii "
+    ""\" ++ [233]%N ++ runes_of_ascii """: msg_type , ""abc"":
+o // @lengthOf(
+} ,} ,
+@calculatedFrom( """" ) match // trailing space 
+falsey
+    as calculatedFrom
+    { // `tick` ""quote"" 'q'
+[
+    1
+, """ ++ [233]%N ++ runes_of_ascii "t" ++ [233]%N ++ runes_of_ascii """ ]
+    : body , ""`tick`""
+: calculatedFrom , 3
+    :  x_y_z ,""it's"":Packet ,[ 007  ] : Foo , """ ++ [128512]%N ++ runes_of_ascii """ : Foo ,} , // " ++ [27880; 37322]%N ++ runes_of_ascii "
+match leftPad as stringy {
+""a\\""  : T,
+} , }")).
+Eval vm_compute in ("<<<M352>>>" ++ check (runes_of_ascii "MetaData	matchKey
+{ float64	string_, string pack`doc`	,Foo float `` ,x chars
+    `crlf
+line`
+    ,
+} packet Header { float64 lengthOf //x
+@lengthOf(
+    calculatedFrom ) `crlf
+line` , zchar[1 ]
+int @lengthOf( int),u8  string_,
+//x
+// c
+@tag(3 // packet A { u8 x, }
+) @tag( 10 // c
+)
+i64_
+    // " ++ [128512]%N ++ runes_of_ascii " emoji
+    {repeat	i16 body
+    //x
+    `crlf
+line` , f64 repeatCount @lengthOf( x_y_z )
+    , x{ char[ 0 ]// a // b
+int , }
+, match u128
+    as
+    MetaDataX { [ 007 ,
+    //x
+    ""// no comment"" ] : string_,
+// a // b
+// trailing space 
+0 : int,  [  42 , ""`tick`"" , 0123456789
+, ""\" ++ [233]%N ++ runes_of_ascii """  , ""1"", ""packet"" , 255
+, ""{,}"" ]:	crc ,
+0123456789  :	rootA [ ""\n"" ] :
+    // packet A { u8 x, }
+    charz , [ ""packet"", 10 ]
+:T , }
+, }//
+, // packet A { u8 x, }
+repeat
+zchar[ 007  ]matchKey `crlf
+line` ,
+    @rightPad // `tick` ""quote"" 'q'
+(
+    '0' )
+    // `tick` ""quote"" 'q'
+    repeat char[ 00	]
+pack`{ , }` , // " ++ [27880; 37322]%N ++ runes_of_ascii "
+i8i8
+, f32a
+    { u128
+    packetx , MetaDataX msg_type ,
+char[ 65535] falsey `" ++ [28040; 24687; 31867; 22411]%N ++ runes_of_ascii "`
+, }
+    , } packet uint8x { uint32 msg_type`u8 x,` , char[ 65535 ] // c
+o // trailing space 
+`u8 x,` , @rightPad
+( '\x00' )
+int @lengthOf( int )`crlf
+line` ,}packet Logon{ char[] string_ ,
+    string repeatCount// trailing space 
+@lengthOf( _x
+)
+    // packet A { u8 x, }
+    ,  @calculatedFrom( ""\" ++ [233]%N ++ runes_of_ascii """ )@lengthOf( trueish) @tag(
+//
+// `tick` ""quote"" 'q'
+007 ) i8
+    a1
+@lengthOf(
+BodyLength
+) `it's` ,	@rightPad ( ' ') @calculatedFrom(
+    ""{,}"" // c
+) @lengthOf(
+    // `tick` ""quote"" 'q'
+    zchar
+// c
+//	t
+) repeat
+    _x {
+    len
+, repeat	uint16
+    /// triple
+    trueish `say ""hi""` , u16 roots `two words` ,},} // `tick` ""quote"" 'q'")).
+Eval vm_compute in ("<<<M3886>>>" ++ check (runes_of_ascii "// top
+    options 
+// c0
 
-pack , }
+{  // c1a
+  // c1b
+	LittleEndian 	 // c2
+      = // c3
+false	// c4a
+
+// c4b
+;
+// c5
+
+ArrayPrefixLenType // c6a
+  // c6b
+		=
+
+    u8
+	; 	 // c9
+    	FixedStringPadChar  
+  // c10
+
+	=  // c11
+  	'0'
+
+    // c12
+  ; // c13a
+		// c13b
+}
+// c14
+  packet // c15
+    Order	// c16a
+    // c16b
+	{
+
+    InNote94  // c18
+	  {// c19
+f32	// c20
+	f1 
+	// c21
+
+,
+    // c22
+f64 Side2  // c24
+	  , 	 // c25
+    	repeat 	 // c26a
+	// c26b
+	InTail47// c27a
+    	// c27b
+		{	// c28a
+	// c28b
+
+char[] // c29a
+
+// c29b
+		seqNo ,	// c31
+    char[] Tail
+
+    ,// c34a
+	// c34b
+char[]	// c35
+	lastPx 
+// c36
+  , 
+    // c37
+
+} ,
+}	// c40a
+
+// c40b
+	, 
+  // c41
+zchar[7	// c43
+	]
+    f1  // c45
+  	,	// c46
+    u8	// c47a
+// c47b
+	Side2  ,// c49
+  }// c50a
+	// c50b
+	root
+	packet	// c52
+    Reject	// c53a
+    // c53b
+	{ 
+
+    // c54
+
+repeat  // c55a
+// c55b
+	char[// c56a
+  // c56b
+4
+	// c57
+	]// c58
+Flags
+// c59
+  , // c60
+	InPrice63  {
+InSeqno41 {	repeat  // c65a
+    	// c65b
+	i8 
+OrderId
+
+// c67
+  ,
+repeat 	 // c69a
+
+	// c69b
+      i32 // c70a
+		// c70b
+  	clOrdID
+    // c71
+  , char[ // c73
+	9
+// c74
+  	] tag7	// c76
+,	// c77a
+	  // c77b
+	  char[]// c78a
+// c78b
+lastPx// c79a
+
+  // c79b
+, 	 // c80
+		} 	 // c81
+,  // c82a
+    // c82b
+	Order , 	 // c84a
+  	// c84b
+  uint8 Side2  
+      // c86
+  ,// c87a
+	  // c87b
+	}
 
     , 
-@tag(
-    3
-    )  // @lengthOf(
-		string
-    metadata
-,  string	stringy
-
-    `u8 x,`
-    // @lengthOf(
-// a // b
-
-,}
+    // c89
+  } 
+  // c90
+ 
 ")).
-Eval vm_compute in ("<<<M1631>>>" ++ check (runes_of_ascii "packet
+Eval vm_compute in ("<<<M3630>>>" ++ check (runes_of_ascii "// top
+options
+    // c0
+{ StringPrefixLenType // c2a
+  // c2b
+= // c3
+u8 // c4a
+  // c4b
+;
+    // c5
+ArrayPrefixLenType
+    // c6
+= u32 // c8
+; // c9a
+  // c9b
+} packet
+    // c11
+Quote // c12a
+  // c12b
+{ // c13
+u32 // c14
+Ref , // c16
+InNote74 { // c18
+u8 // c19
+pad0
+    // c20
+, // c21a
+  // c21b
+} ,
+    // c23
+}
+    // c24
+packet Ack { // c27a
+  // c27b
+repeat // c28a
+  // c28b
+string // c29
+OrderId
+    // c30
+, } // c32
+packet // c33a
+  // c33b
+Logout // c34a
+  // c34b
+{
+    // c35
+zchar[ // c36
+7 ] // c38
+venue , // c40
+char[ // c41a
+  // c41b
+12
+    // c42
+]
+    // c43
+Px
+    // c44
+, // c45
+string // c46
+count // c47a
+  // c47b
+,
+    // c48
+char[] Tail // c50a
+  // c50b
+,
+    // c51
+char[] // c52a
+  // c52b
+Qty // c53a
+  // c53b
+, // c54a
+  // c54b
+Quote // c55
+, // c56
+} root packet
+    // c59
+Trade
+    // c60
+{
+    // c61
+zchar[
+    // c62
+2
+    // c63
+]
+    // c64
+price , // c66
+u32 // c67
+x // c68a
+  // c68b
+, // c69a
+  // c69b
+u32 // c70
+lastPx @lengthOf(
+    // c72
+Body
+    // c73
+) // c74
+,
+    // c75
+match // c76a
+  // c76b
+x // c77
+as Body // c79a
+  // c79b
+{ // c80
+148
+    // c81
+: // c82a
+  // c82b
+Ack // c83a
+  // c83b
+, 171
+    // c85
+: // c86a
+  // c86b
+Quote // c87
+, 15
+    // c89
+: // c90
+Logout
+    // c91
+, // c92a
+  // c92b
+} // c93
+,
+    // c94
+} ")).
+Eval vm_compute in ("<<<M1183>>>" ++ check (runes_of_ascii "options {
+    trueish
+=// a // b
+'0'
+/// triple
+//
+;} options  { x_y_z
+    =	'0'
+u
+= true;
+    asx
+= ""a	b"" ;
+u128= 4294967296  len
+=
+    true
+    ;	} packet u128 { A  { f32 repeatCount
+@lengthOf(
+    tag) , u32 tag , } ,
+// " ++ [128512]%N ++ runes_of_ascii " emoji
+// " ++ [128512]%N ++ runes_of_ascii " emoji
+repeat
+zchar
+    zchar`u8 x,` , match
+    u as	a1 { [ // " ++ [128512]%N ++ runes_of_ascii " emoji
+""a\""b"" ,""" ++ [28040; 24687]%N ++ runes_of_ascii """]: Z9_ , 10 :int ,	[ ""\n"" , ""CRC32"" , 007
+,
+// " ++ [128512]%N ++ runes_of_ascii " emoji
+// " ++ [128512]%N ++ runes_of_ascii " emoji
+""" ++ [28040; 24687]%N ++ runes_of_ascii """ ,
+""packet""
+// " ++ [27880; 37322]%N ++ runes_of_ascii "
+// `tick` ""quote"" 'q'
+, 255 ,
+    //
+    1 ,
+    255 ]  : matchKey
+, }//
+, char[/// triple
+10 ]Z9_ // trailing space 
+@calculatedFrom( """ ++ [128512]%N ++ runes_of_ascii """ )  `" ++ [28040; 24687; 31867; 22411]%N ++ runes_of_ascii "`,
+    }
+packet o{ match i64_
+    as crc
+{ ""CRC32"" : MetaDataX // trailing space 
+, }
+, a1 @lengthOf( Pad ) ,
+packetx @calculatedFrom(
+""" ++ [28040; 24687]%N ++ runes_of_ascii """
+    // " ++ [27880; 37322]%N ++ runes_of_ascii "
+    ) // a // b
+`{ , }`
+,
+a1 { Packet // trailing space 
+@lengthOf( T	) `two words`, metadata
+{ match crc
+as matchKey{
+[""CRC32"" ,
+""// no comment"", ""CRC32"" ,
+    65535 ]
+    :zchar 3: i64_ ,
+} , repeat
+stringy , }, x_y_z Pad// " ++ [128512]%N ++ runes_of_ascii " emoji
+,
+}
+,
+    zchar[	1
+    ] i64_ @calculatedFrom( ""// no comment""
+)
+    , @rightPad ( ' '// packet A { u8 x, }
+)
+//
+// " ++ [128512]%N ++ runes_of_ascii " emoji
+i8 float
+@lengthOf( //x
+tag )	,
+    @tag(  255  )
+    match rootA as
+    A { ""`tick`"" : asx,  } ,}")).
+Eval vm_compute in ("<<<M1391>>>" ++ check (runes_of_ascii "options {
+	StringPrefixLenType = u16;
+	ArrayPrefixLenType = u16;
+}
+
+packet SampleBinary {
+	uint16 MsgType `" ++ [28040; 24687; 31867; 22411]%N ++ runes_of_ascii "`,
+	u16 BodyLenght @lengthOf(Body) `" ++ [28040; 24687; 20307; 38271; 24230]%N ++ runes_of_ascii "`,
+	match MsgType as Body {
+		1 : Logon,
+		2 : Logout,
+		3 : Heartbeat,
+		4 : RiskControlRequest,
+		5 : RiskControlResponse,
+	},
+		@calculatedFrom(""CRC32"")
+	u32 Ckecksum `" ++ [26657; 39564; 21644]%N ++ runes_of_ascii "`,
+}
+
+packet Logon {
+	 @leftPad('0')
+	char[10] UserName `" ++ [29992; 25143; 21517]%N ++ runes_of_ascii "`,
+	string Password `" ++ [23494; 30721]%N ++ runes_of_ascii "`,
+	uint64 ClientId `" ++ [23458; 25143; 31471]%N ++ runes_of_ascii "ID`,
+	u16 HeartbeatInterval `" ++ [24515; 36339; 38388; 38548]%N ++ runes_of_ascii "`,
+}
+
+packet Logout {
+	  @rightPad('0')
+	char[10] UserName `" ++ [29992; 25143; 21517]%N ++ runes_of_ascii "`,
+	uint64 ClientId `" ++ [23458; 25143; 31471]%N ++ runes_of_ascii "ID`,
+}
+
+packet Heartbeat {
+}
+
+packet RiskControlRequest {
+	string UniqueOrderId `" ++ [21807; 19968; 35746; 21333; 21495]%N ++ runes_of_ascii "`,
+	char[16] ClOrdID `" ++ [23458; 25143; 35746; 21333; 21495]%N ++ runes_of_ascii "`,
+	char[3] MarketID `" ++ [24066; 22330]%N ++ runes_of_ascii "id`,
+	char[12] SecurityID `" ++ [35777; 21048; 20195; 30721]%N ++ runes_of_ascii "`,
+	char Side `" ++ [20080; 21334; 26041; 21521]%N ++ runes_of_ascii "`,
+	char OrderType `" ++ [35746; 21333; 31867; 22411]%N ++ runes_of_ascii "`,
+	u64 Price `" ++ [20215; 26684]%N ++ runes_of_ascii "`,
+	u32 Qty `" ++ [25968; 37327]%N ++ runes_of_ascii "`,
+	repeat string ExtraInfo `" ++ [38468; 21152; 20449; 24687]%N ++ runes_of_ascii "`,
+	repeat SubOrder {
+			char[16] ClOrdID `" ++ [23376; 35746; 21333; 21495]%N ++ runes_of_ascii "`,
+			u64 Price `" ++ [23376; 35746; 21333; 20215; 26684]%N ++ runes_of_ascii "`,
+			u32 Qty `" ++ [23376; 35746; 21333; 25968; 37327]%N ++ runes_of_ascii "`,
+		},
+}
+
+packet RiskControlResponse {
+	string UniqueOrderId `" ++ [21807; 19968; 35746; 21333; 21495]%N ++ runes_of_ascii "`,
+	i32 Status `" ++ [29366; 24577]%N ++ runes_of_ascii "`,
+	string Msg `" ++ [32467; 26524; 20449; 24687]%N ++ runes_of_ascii "`,
+	repeat Detail,
+}
+
+packet Detail {
+	string RuleName `" ++ [35268; 21017; 21517; 31216]%N ++ runes_of_ascii "`,
+	u16 Code `" ++ [21407; 22240; 20195; 30721]%N ++ runes_of_ascii "`,
+}")).
+Eval vm_compute in ("<<<M153>>>" ++ check (runes_of_ascii "options
+// packet A { u8 x, }
+/// triple
+{	}MetaData	zchar// @lengthOf(
+{
+    A i64_
+`crlf
+line` , char[]string_ `
+` , Packet
+stringy `a\` , // `tick` ""quote"" 'q'
+char[ 1] i8i8 // @lengthOf(
+,float32
+options1 `{ , }` ,} packet
+    a1{@lengthOf( o ) //x
+o { calculatedFrom @calculatedFrom(
+    //x
+    ""a\\""
+) , } , @lengthOf(
+a1) repeat i8i8
+    stringy ,int8	pack , @lengthOf( u8x
+    ) string
+packetx @calculatedFrom( ""`tick`"" ) `` , @lengthOf( Header ) @tag( 0123456789 ) @calculatedFrom(
+""CRC32"" ) repeat BodyLength `two words` , @lengthOf( T)  zchar[ 1//
+] repeatCount@lengthOf( o	) ,
+    match // " ++ [128512]%N ++ runes_of_ascii " emoji
+As as options1 { ""1"":
+    o, ""a\\"": crc
+,[ 0123456789, ""a	b"" // `tick` ""quote"" 'q'
+, """ ++ [128512]%N ++ runes_of_ascii """ ,	65535
+, """ ++ [128512]%N ++ runes_of_ascii """
+    // `tick` ""quote"" 'q'
+    ,  ""1""	,
+00 ] : x , [ ""abc""	,
+""\n""
+, 4294967296 ,
+10 ,
+    //x
+    0123456789
+,	42 , """ ++ [128512]%N ++ runes_of_ascii """, 3 ] :
+    // " ++ [128512]%N ++ runes_of_ascii " emoji
+    msg_type } , match
+u8x as
+lengthOf
+    { [""x y"" , ""{,}""// a // b
+] :	asx // `tick` ""quote"" 'q'
+4294967296  : chars,
+    ""CRC32"" : a1 ""a	b"" :metadata ,  7 : zchar  , }
+, }")).
+Eval vm_compute in ("<<<M4496>>>" ++ check (runes_of_ascii "// `tick` ""quote"" 'q'
+packet msg_type {
+    // c
+    uint8 leftPad,
+}
+
+packet roots {
+    @tag(3)
+    // a // b
+    // `tick` ""quote"" 'q'
+    string_ @lengthOf(body),
+    Header @lengthOf(Z9_),
+    repeat zchar[007] roots,
+    string_ msg_type `crlf
+    line`,
+    Logon @lengthOf(pack) `say ""hi""`,
+    @rightPad('\x00')
+    @leftPad('0')
+    repeat u8 float `it's`,
+    @calculatedFrom(""\n"")
+    @lengthOf(falsey)
+    msg_type {
+        match Packet as tag {
+            [10, 007] : int,
+            4294967296 : asx,
+        },
+        uint32 string_ @lengthOf(_x) `two words`,
+        _x,
+    },
+    f32a {
+        f32 body,
+        uint16 u128,
+        matchKey @lengthOf(Packet),
+    },
+    repeat zchar[0123456789] float `say ""hi""`,
+    f32 i8i8 `{ , }`,
+}
+
+root packet options1 {
+    @tag(0)
+    packetx,
+    repeat float64 BodyLength,
+}
+
+options {
+    Pad = true;
+    crc = 007;// @lengthOf(
+}
+
+MetaData packetx {
+    roots Packet `tab	here`,// " ++ [128512]%N ++ runes_of_ascii " emoji
+    asx len,
+}")).
+Eval vm_compute in ("<<<M1057>>>" ++ check (runes_of_ascii "
+packet
+// c
+// @lengthOf(
+int{ @lengthOf( //
+pack
+    ) f64 asx @calculatedFrom( ""abc"" )
+    , @calculatedFrom( ""\" ++ [233]%N ++ runes_of_ascii """ ) f64 //	t
+u
+`// not a comment`
+,// " ++ [128512]%N ++ runes_of_ascii " emoji
+@lengthOf( stringy) @tag( 3 )
+    @rightPad  ()repeat float32
+    rootA , msg_type@lengthOf(
+    packetx
+    // " ++ [27880; 37322]%N ++ runes_of_ascii "
+    ), @lengthOf( repeatCount
+) //x
+@calculatedFrom(
+""`tick`"" )  float lengthOf ,
+} packet Pad { repeat uint8x body`u8 x,` ,	zchar	{
+    u8 trueish, float `
+` ,
+    } , @lengthOf(
+uint8x
+) @lengthOf( //x
+float ) u64 T @calculatedFrom( ""// no comment"" ) , @rightPad ()
+    repeat options1//x
+int ,
+@tag( 00
+// c
+// c
+)
+    @lengthOf( string_
+// c
+/// triple
+)
+@lengthOf( f32a	)
+string
+/// triple
+//	t
+u , match
+    // trailing space 
+    x as uint8x
+    {[
+    ""it's"" , ""x y""
+, ""it's""  ] : // " ++ [128512]%N ++ runes_of_ascii " emoji
+i64_	,// c
+}
+    ,} root packet
+trueish{ i8i8`line1
+line2` , } // " ++ [27880; 37322]%N ++ runes_of_ascii "
+packet tag { //	t
+float64 // packet A { u8 x, }
+Foo
+    `` , }
+")).
+Eval vm_compute in ("<<<M3981>>>" ++ check (runes_of_ascii "options {
+}
+
+packet falsey {
+    i64 calculatedFrom @calculatedFrom(""a\\"") `it's`,
+    char[00] falsey,
+    @calculatedFrom(""1"")
+    @calculatedFrom(""{,}"")
+    i32 float,
+    @tag(3)
+    @calculatedFrom(""CRC32"")
+    int64 options1 @lengthOf(roots) `two words`,
+    @calculatedFrom(""a\\"")
+    repeat trueish {
+        repeat charz,
+        trueish tag `two words`,
+        repeat u64 Logon `" ++ [28040; 24687; 31867; 22411]%N ++ runes_of_ascii "`,
+    },
+    @leftPad('0')
+    // " ++ [128512]%N ++ runes_of_ascii " emoji
+    @rightPad(' ')
+    //	t
+    //
+    u roots,
+    repeat A {
+        i32 int @lengthOf(zchar) `" ++ [233]%N ++ runes_of_ascii "`,
+    },
+    u64 A,
+    @tag(10)
+    char[] u8x,
+    zchar[10] pack @calculatedFrom(""1"") `say ""hi""`,
+}
+
+packet Z9_ {
+    // " ++ [27880; 37322]%N ++ runes_of_ascii "
+    @leftPad('0')
+    repeat As charz,
+    body @calculatedFrom(""it's"") `crlf
+        line`,
+    // " ++ [27880; 37322]%N ++ runes_of_ascii "
+    @leftPad('0')
+    zchar[4294967296] A @calculatedFrom(""packet"") `" ++ [233]%N ++ runes_of_ascii "`,
+    repeat body Header `" ++ [233]%N ++ runes_of_ascii "`,
+}")).
+Eval vm_compute in ("<<<M4399>>>" ++ check (runes_of_ascii "
+MetaData
+    crc
+    {} packet
+
+options1	{ u32 int 
+@lengthOf(
+int) ,@leftPad 
+  /// triple
+( '\x00'	)
+	repeat  string
+
+uint8x,
+@lengthOf(
+T
+) 
+zchar
+trueish ,
+
+@leftPad (  ) int32	// a // b
+i8i8 @lengthOf(
+u8x
+// " ++ [27880; 37322]%N ++ runes_of_ascii "
+)
+
+, 
+      // c
+		// " ++ [27880; 37322]%N ++ runes_of_ascii "
+    repeatCount 
+@calculatedFrom( ""x y"")
+
+    , Logon 
+falsey
+,	}options { int =  ""\n"" 	 //	t
+len
+    = true	;
+
+    _x =
+
+    char As =
+	int16 ; }packet Z9_{
+repeat rootA  ,@lengthOf(
+a1
+    )string_
+
+trueish `" ++ [233]%N ++ runes_of_ascii "` 
+,
+    int8  Foo,
+@tag( 007)repeat	falsey`// not a comment`  /// triple
+  , 
+@tag(0
+    )
+    f64
+	x  @calculatedFrom(  ""a\\"" 
+// c
+
+  ) 
+`// not a comment`
+    ,// `tick` ""quote"" 'q'
+      uint64 Header 
+,	u8
+
+    charz@calculatedFrom(
+
+    """ ++ [128512]%N ++ runes_of_ascii """
+)
+`" ++ [28040; 24687; 31867; 22411]%N ++ runes_of_ascii "` 
+,
+    i32	As @lengthOf(
+	a1  ) 
+`{ , }` 
+,
+
+    @calculatedFrom(	""a	b"") uint16
+	x,
+}")).
+Eval vm_compute in ("<<<M4278>>>" ++ check (runes_of_ascii "  packet
+a1 /// triple
+	{ @lengthOf(	As	)	uint16// " ++ [128512]%N ++ runes_of_ascii " emoji
+  	matchKey
+`line1
+line2`,	}options
+{ pack
+=
+
+    7
+
+} 
+packet
+
+    // " ++ [128512]%N ++ runes_of_ascii " emoji
+  packetx {@calculatedFrom( 
+""packet""
+    ) 
+int8 metadata  @lengthOf(metadata 
+) ,
+    @tag(  7
+
+    )
+	lengthOf
+	@lengthOf(
+u128
+
+    ) // " ++ [128512]%N ++ runes_of_ascii " emoji
+    ,
+	@rightPad(
+
+    )Header 
+@lengthOf(
+msg_type
+	)
+
+    `` 
+,
+	leftPad
+,	}  packet
+	    // packet A { u8 x, }
+    string_
+{} packet f32a {	@leftPad
+    (
+
+'0'
+)
+    @leftPad	(
+' '
+
+/// triple
+  	) @leftPad(
+
+    ' '  )
+
+x_y_z
+
+    { char charz @calculatedFrom( 
+"""" )
+    //	t
+    // trailing space 
+, repeat rootA
+repeatCount
+	,  
+  // packet A { u8 x, }
+repeat u128 f32a `// not a comment`	,
+},  
+  // " ++ [27880; 37322]%N ++ runes_of_ascii "
+  // trailing space 
+  } 	 // packet A { u8 x, }
+ 
+")).
+Eval vm_compute in ("<<<M1022>>>" ++ check (runes_of_ascii "//
+packet T
+    { @lengthOf( stringy )
+f64 packetx `a\` ,packetx asx// `tick` ""quote"" 'q'
+,	string matchKey `say ""hi""` , int8 roots ,u32 asx @calculatedFrom(""it's"")
+, @calculatedFrom( ""// no comment""// " ++ [128512]%N ++ runes_of_ascii " emoji
+)
+// " ++ [27880; 37322]%N ++ runes_of_ascii "
+// @lengthOf(
+match i64_ as
+roots
+{ ""// no comment""// trailing space 
+:crc , }	,
+@lengthOf(
+leftPad
+) string u128 `doc`, @lengthOf( asx ) match
+    asx
+as f32a { [10,007 ] : asx , [ 10 , ""1""
+] :
+BodyLength, 1: Logon, }
+    , @calculatedFrom(
+    ""// no comment""
+)
+    @lengthOf(
+    zchar )zchar[ 0123456789] // trailing space 
+T
+    `" ++ [28040; 24687; 31867; 22411]%N ++ runes_of_ascii "`  , char[
+10 ]matchKey``,
+    } MetaData options1
+{ i64
+repeatCount`a\`
+,	f32 calculatedFrom `// not a comment` , char[1]	T , } packet A { // " ++ [128512]%N ++ runes_of_ascii " emoji
+char[ 1 ]u `" ++ [28040; 24687; 31867; 22411]%N ++ runes_of_ascii "` , }
+")).
+Eval vm_compute in ("<<<M4611>>>" ++ check (runes_of_ascii "packet i8i8 {
+    @tag(65535)
+    i8i8,
+    repeat u8 uint8x,
+    zchar[7] u,
+    repeat char[] Packet,
+    @leftPad('\x00')
+    i64_ {
+        x `line1
+        line2`,//x
+    },// a // b
+    repeat Foo {
+        len {
+            match u as _x {
+                42 : tag,
+                [""" ++ [233]%N ++ runes_of_ascii "t" ++ [233]%N ++ runes_of_ascii """] : _x,
+                [7, 4294967296] : Packet,
+            },
+            float64 o `it's`,
+            int64 options1,//	t
+        },
+    },
+    @leftPad('\x00')
+    match x as zchar {
+        255 : o,
+        255 : Logon,
+        0 : Header,
+        007 : msg_type,
+        [
+            ""\n"", 007, ""1"", 255, 4294967296,
+            0, 007
+        ] : int,
+    },
+}// trailing space 
+
+packet As {
+}")).
+Eval vm_compute in ("<<<M242>>>" ++ check (runes_of_ascii "packet
+    uint8x { @tag(	0123456789 // a // b
+) match u as
+As
+    {
+    ""1""
+    :	o ,4294967296 : charz [ ""CRC32""
+    ]	: A , 42: zchar, ""CRC32"" : leftPad //	t
+,
+    """ ++ [28040; 24687]%N ++ runes_of_ascii """// " ++ [128512]%N ++ runes_of_ascii " emoji
+: uint8x, } , }
+    options {
+u128 = uint32
+}
+    packet
+chars
+{
+    // a // b
+    float @lengthOf( _x ) // `tick` ""quote"" 'q'
+, string
+    chars@lengthOf(
+matchKey
+// @lengthOf(
+// packet A { u8 x, }
+) , match  crc as
+    Z9_ {0123456789 : int
+    ,""x y"" //
+:
+    rootA,	""`tick`""
+    : As,
+    // @lengthOf(
+    } ,@tag(7 )
+Pad @lengthOf( trueish  )`u8 x,`
+,}
+packet float
+{ repeat Packet{ lengthOf {
+    //
+    repeat f32a`it's`
+, } ,	o @lengthOf( calculatedFrom	)  , }
+,}
+
+")).
+Eval vm_compute in ("<<<M576>>>" ++ check (runes_of_ascii "root packet roots  { }packet body{ @lengthOf(Pad ) repeat
+a1
+BodyLength , char[
+7
+    ]
+    stringy ,	zchar[
+255] asx
+, uint8x u128 , } options {Header
+=
+""\" ++ [233]%N ++ runes_of_ascii """ T =""abc""
+;
+    _x
+=zchar[  3 ];
+falsey = 65535;
+A =
+4294967296 } packet x{
+    @leftPad
+    (
+    //
+    ' ') @calculatedFrom( ""a	b"")
+    /// triple
+    @lengthOf(rootA // trailing space 
+)
+float64 rootA `a\` ,  f64 o	, repeat
+pack, @rightPad () uint64	u8x, @lengthOf(
+chars
+)	repeat  f64 _x// packet A { u8 x, }
+`two words` ,// c
+Pad
+Header `it's`,
+zchar[ 00 ] options1 @lengthOf( i8i8	),
+} packet u8x{
+    char[// @lengthOf(
+00 ] string_ @lengthOf( falsey  )
+, }")).
+Eval vm_compute in ("<<<M646>>>" ++ check (runes_of_ascii "  root packet stringy { u
+@calculatedFrom(	""packet""	)
+``,  @calculatedFrom( """ ++ [28040; 24687]%N ++ runes_of_ascii """ ) @lengthOf(//x
+Foo // packet A { u8 x, }
+)@calculatedFrom( // trailing space 
+""abc"" ) u64 zchar ,
+    match body
+// " ++ [128512]%N ++ runes_of_ascii " emoji
+// c
+as
+// trailing space 
+// " ++ [27880; 37322]%N ++ runes_of_ascii "
+body { 0
+:
+charz ""packet"":
+    charz ,
+0123456789
+    : repeatCount , ""\" ++ [233]%N ++ runes_of_ascii """
+:Foo}
+    , repeat string	asx `u8 x,` , } MetaData
+    BodyLength{
+    string Z9_
+,zchar[
+    0123456789
+    ]  Header	,
+    char[65535 ]
+    asx ,zchar[255 ] charz `// not a comment` ,
+f32 crc ,}options	{
+    }packet
+_x{ }packet trueish { @calculatedFrom("""" )x
+, // " ++ [27880; 37322]%N ++ runes_of_ascii "
+} 	 ")).
+Eval vm_compute in ("<<<M859>>>" ++ check (runes_of_ascii "  MetaData
+a1{leftPad Foo `" ++ [233]%N ++ runes_of_ascii "` , u16
+    BodyLength , } packet packetx
+    { } options{ As
+= """" string_=// c
+true ; } //	t
+packet	zchar  { u128 @lengthOf( stringy ) `" ++ [28040; 24687; 31867; 22411]%N ++ runes_of_ascii "` ,
+Z9_
+As `` ,
+    // a // b
+    repeat u128
+body`" ++ [233]%N ++ runes_of_ascii "` , @rightPad	( ' ') @tag( 42 ) match charz
+as a1 {""packet"" :
+i64_	, } , int
+    /// triple
+    @lengthOf( As
+)  `// not a comment`
+//
+//x
+, string body,@calculatedFrom( ""\n"" ) u8 a1, @leftPad( '0'// a // b
+)repeat i64_ `a\` , pack
+    stringy  , zchar[	00 ] len @calculatedFrom(
+//x
+// `tick` ""quote"" 'q'
+""packet"" ) `
+`,// trailing space 
+}
+")).
+Eval vm_compute in ("<<<M988>>>" ++ check (runes_of_ascii "packet
+    pack
+    {	A // a // b
+{ char[
+0  ]msg_type `
+` ,
+} ,@lengthOf( msg_type
+) MetaDataX {
+    int64 u @calculatedFrom(
+""a\""b""  )
+`
+`
+    ,float32// a // b
+i8i8  @calculatedFrom( ""a\\""
+) `it's` ,	match uint8x as matchKey
+    // a // b
+    {""{,}"" :
+i64_ ,
+    42 : T , 3
+:
+x // c
+}	, },@tag(10) @leftPad ( '\x00'
+)
+    zchar { f32a  Foo,}
+    ,
+match x_y_z as
+    falsey{ ""// no comment"" : i64_ ,} , // `tick` ""quote"" 'q'
+} options { uint8x
+    // " ++ [128512]%N ++ runes_of_ascii " emoji
+    =
+    '0' ;	_x
+= false // `tick` ""quote"" 'q'
+f32a =zchar[ 00]
+;
+}
+")).
+Eval vm_compute in ("<<<M849>>>" ++ check (runes_of_ascii "options {float = ' ' Foo =
+""a	b"" A = // packet A { u8 x, }
+i16
+    ; string_ =""it's""} // c
+MetaData float{ charz falsey // " ++ [27880; 37322]%N ++ runes_of_ascii "
+, char[]chars
+, float32
+    Pad , }MetaData repeatCount
+    {
+    char[	65535] // `tick` ""quote"" 'q'
+Header `" ++ [233]%N ++ runes_of_ascii "` // trailing space 
+,
+    float32 Pad
+, u64 len
+    ,
+    // `tick` ""quote"" 'q'
+    lengthOf a1 `{ , }`
+    //	t
+    ,
+    //x
+    }
+options
+    {  leftPad = zchar[ 00] ; charz
+= 10
+    ;options1
+    =
+    // trailing space 
+    string len =zchar[255 ] ; Logon = ""\n""
+    ; }
+")).
+Eval vm_compute in ("<<<M3767>>>" ++ check (runes_of_ascii "root packet lengthOf {
+    @lengthOf(i64_)
+    string repeatCount @calculatedFrom(""" ++ [28040; 24687]%N ++ runes_of_ascii """) `doc`,
+    repeat char[] f32a `two words`,
+    @lengthOf(i64_)
+    char[] a1,//
+    match float as BodyLength {
+        """" : tag,
+        """ ++ [28040; 24687]%N ++ runes_of_ascii """ : roots,
+        ""// no comment"" : A,
+    },
+    metadata,
+    repeat char[0123456789] a1 `a\`,
+    @leftPad('\x00')
+    zchar lengthOf,
+    repeat char[] calculatedFrom,
+    @rightPad('\x00')
+    @rightPad('\x00')
+    i8 BodyLength,
+}
+
+options {
+}
+
+options {
+}")).
+Eval vm_compute in ("<<<M711>>>" ++ check (runes_of_ascii "MetaData f32a
+    // " ++ [27880; 37322]%N ++ runes_of_ascii "
+    { msg_type u128 , } options {
+    } // packet A { u8 x, }
+root packet body {
+    Packet `say ""hi""` , string
+pack `doc`
+    ,
+//	t
+//	t
+@tag( 10
+)
+lengthOf{	char[]
+    MetaDataX , u16 uint8x
+    @calculatedFrom( """" )  , uint32 options1
+`{ , }`
+// a // b
+//
+, _x
+,	} ,
+} packet int{} MetaData
+u128{ x_y_z
+    As ,
+    msg_type int`two words`,
+    // c
+    pack
+repeatCount ,	tag Z9_
+    , calculatedFrom
+chars // a // b
+`crlf
+line`
+    ,
+}
+")).
+Eval vm_compute in ("<<<M695>>>" ++ check (runes_of_ascii "// `tick` ""quote"" 'q'
+options{
+    Pad  =
+'0' } //
+packet
+    zchar{	stringy
+// " ++ [128512]%N ++ runes_of_ascii " emoji
+// " ++ [27880; 37322]%N ++ runes_of_ascii "
+{ match
+x as i64_	{00 : len,/// triple
+""`tick`""
+://x
+body
+, 3 : chars//
+, 7 : uint8x 0123456789:Foo
+,
+} , repeat
+chars i8i8
+,  float32// c
+Logon
+@lengthOf(A ) `tab	here` ,
+} ,} packet
+    //x
+    As  {
+    @lengthOf( i64_)
+    repeat
+    options1{ a1 @calculatedFrom( ""a\\""),
+    }
+    // packet A { u8 x, }
+    ,
+@calculatedFrom( ""CRC32"" ) matchKey ,}
+")).
+Eval vm_compute in ("<<<M1088>>>" ++ check (runes_of_ascii "options { int// a // b
+=7 ;float = int64;
+/// triple
+// a // b
+stringy= 3 rootA
+    // packet A { u8 x, }
+    =""CRC32"" x = // c
+true // " ++ [128512]%N ++ runes_of_ascii " emoji
+} options{ A=uint16
+    // @lengthOf(
+    ; metadata = ""1""
+// trailing space 
+// `tick` ""quote"" 'q'
+packetx=10// " ++ [128512]%N ++ runes_of_ascii " emoji
+} MetaData Packet { T int	`u8 x,` , o _x
+    ,
+falsey chars ,
+} root packet string_
+{ packetx Pad`a\`
+    , trueish x_y_z ,body , repeat char[ 3]  options1 `it's` , }")).
+Eval vm_compute in ("<<<M1260>>>" ++ check (runes_of_ascii "
+packet As { repeat string
+    Logon `two words` , @calculatedFrom( """" ) zchar[ 7 ]chars`crlf
+line` ,@rightPad (
+    '\x00' ) repeat len
+u , uint16 // " ++ [27880; 37322]%N ++ runes_of_ascii "
+options1
+    , } packet
+u
+    { @leftPad
+    ( ' ' ) repeat a1 packetx, u32 a1 @calculatedFrom( """ ++ [128512]%N ++ runes_of_ascii """
+    ) , }packet As { repeat float32 options1
+    `doc`, repeat float32
+// trailing space 
+// trailing space 
+x_y_z
+,@calculatedFrom( """ ++ [28040; 24687]%N ++ runes_of_ascii """
+)u16
+    int`a\` , }")).
+Eval vm_compute in ("<<<M78>>>" ++ check (runes_of_ascii "packet stringy
+{  @calculatedFrom(""a	b""
+)uint8x,}
+// @lengthOf(
+// @lengthOf(
+root packet  i8i8
+{ @lengthOf( options1
+) @tag( 0 )
+    repeat
+metadata _x `" ++ [233]%N ++ runes_of_ascii "`	, repeat
+i8i8`
+` // a // b
+,
+repeat  char[ //x
+3 ]o , // " ++ [128512]%N ++ runes_of_ascii " emoji
+@calculatedFrom(""a	b""
+) repeat
+    u16 x `doc`
+,string_
+`tab	here`  , @calculatedFrom(
+    """ ++ [233]%N ++ runes_of_ascii "t" ++ [233]%N ++ runes_of_ascii """)@tag(	4294967296)
+repeat Logon stringy , } root
+    packet
+    tag { }")).
+Eval vm_compute in ("<<<M3205>>>" ++ check (runes_of_ascii "// top
+options // c0
+{ // c1
+charz // c2
+= // c3
+f64 // c4
+; // c5
+metadata // c6
+= // c7
+7 // c8
+; // c9
+} // c10
+options // c11
+{ // c12
+u128 // c13
+= // c14
+10 // c15
+options1 // c16
+= // c17
+true // c18
+; // c19
+zchar // c20
+= // c21
+uint16 // c22
+; // c23
+lengthOf // c24
+= // c25
+true // c26
+; // c27
+} // c28
+options // c29
+{ // c30
+len // c31
+= // c32
+1 // c33
+} // c34
+")).
+Eval vm_compute in ("<<<M652>>>" ++ check (runes_of_ascii "packet u128{ }
+    // " ++ [128512]%N ++ runes_of_ascii " emoji
+    root
+packet
+rootA{ @tag( // " ++ [27880; 37322]%N ++ runes_of_ascii "
+007 )
+match uint8x as
+    crc {	""a\""b"" :
+    charz ,},
+    // packet A { u8 x, }
+    uint64 repeatCount ,@tag(007//x
+)
+    uint8 f32a
+, @rightPad (
+' ' ) @leftPad
+( '\x00')  @lengthOf( stringy ) T@lengthOf( charz
+    ), metadata matchKey , }
+    packet msg_type {
+    stringy zchar `" ++ [28040; 24687; 31867; 22411]%N ++ runes_of_ascii "` , }
+")).
+Eval vm_compute in ("<<<M170>>>" ++ check (runes_of_ascii "// " ++ [128512]%N ++ runes_of_ascii " emoji
+packet i64_ { match repeatCount
+as u8x{ // packet A { u8 x, }
+7 : crc , },repeat uint32 roots ,
+} packet options1{ match  MetaDataX as
+chars
+{ ""CRC32""
+    :tag , 00 : lengthOf// a // b
+,	""" ++ [233]%N ++ runes_of_ascii "t" ++ [233]%N ++ runes_of_ascii """ : _x , } , uint16 trueish	,
+char[ 10 ] calculatedFrom	,
+@calculatedFrom( ""a\\""  ) @tag(
+65535 ) @rightPad (	'\x00' ) repeat int32 len , }
+")).
+Eval vm_compute in ("<<<M330>>>" ++ check (runes_of_ascii "root packet calculatedFrom { @lengthOf( asx )	T{
+repeat
+/// triple
+//x
+packetx A  ,
+match // " ++ [27880; 37322]%N ++ runes_of_ascii "
+string_ as msg_type { [""abc""] :
+As 0123456789 :  repeatCount
+    , ""a\""b"" :
+roots, } , },uint8x BodyLength `{ , }`
+, string  BodyLength,@leftPad(
+    '\x00'
+) repeat calculatedFrom { uint32 //	t
+trueish ,/// triple
+}, // c
+} // a // b")).
+Eval vm_compute in ("<<<M1906>>>" ++ check (runes_of_ascii "MetaData
+    u { }  options {
+// c
+// @lengthOf(
+float = int8 ;rootA rootA =false ; As =	int16 // `tick` ""quote"" 'q'
+repeatCount
+    // trailing space 
+    =
+    int16
+; u8x =
+    //	t
+    '\x00' ; } options	{
+    repeatCount
+= 0
+u128
+    //
+    = false ; i64_
+// trailing space 
+// `tick` ""quote"" 'q'
+= '0' ; //	t
+}
+")).
+Eval vm_compute in ("<<<M4433>>>" ++ check (runes_of_ascii "options {
+    u128 = false
+}
+
+packet i64_ {
+    @calculatedFrom(""a	b"")
+    Z9_ {
+        x_y_z `two words`,
+        string_,
+    },
+    match BodyLength as As {
+        //x
+        [""a\""b""] : Z9_,
+    },
+    //	t
+    // a // b
+    char[] asx,
+    i16 crc `doc`,
+}
+
+packet o {
+    @leftPad('\x00')
+    repeat u8x T,
+}")).
+Eval vm_compute in ("<<<M2069>>>" ++ check (runes_of_ascii "MetaData
+    u { }  options {
+// c
+// @lengthOf(
+float = int8 ;rootA =false ; As =	| int16 // `tick` ""quote"" 'q'
+repeatCount
+    // trailing space 
+    =
+    int16
+; u8x =
+    //	t
+    '\x00' ; } options	{
+    repeatCount
+= 0
+u128
+    //
+    = false ; i64_
+// trailing space 
+// `tick` ""quote"" 'q'
+= '0' ; //	t
+}
+")).
+Eval vm_compute in ("<<<M1912>>>" ++ check (runes_of_ascii "MetaData
+    u { }  options {
+// c
+// @lengthOf(
+float = int8 ;rootA false= ; As =	int16 // `tick` ""quote"" 'q'
+repeatCount
+    // trailing space 
+    =
+    int16
+; u8x =
+    //	t
+    '\x00' ; } options	{
+    repeatCount
+= 0
+u128
+    //
+    = false ; i64_
+// trailing space 
+// `tick` ""quote"" 'q'
+= '0' ; //	t
+}
+")).
+Eval vm_compute in ("<<<M2052>>>" ++ check (runes_of_ascii "MetaData
+    u { }  options {
+// c
+// @lengthOf(
+float = int8 ;rootA =false ; As =	int16 // `tick` ""quote"" 'q'
+repeatCount
+    // trailing space 
+    =
+    int16
+; u8x =
+    //	t
+    '\x00' ; } options	{
+    repeatCount
+= 0
+u128
+    //
+    = false ; i64_
+// trailing space 
+// `tick` ""quote"" 'q'
+= '0' ; //	t
+]
+")).
+Eval vm_compute in ("<<<M1908>>>" ++ check (runes_of_ascii "MetaData
+    u { }  options {
+// c
+// @lengthOf(
+float = int8 ;f32 =false ; As =	int16 // `tick` ""quote"" 'q'
+repeatCount
+    // trailing space 
+    =
+    int16
+; u8x =
+    //	t
+    '\x00' ; } options	{
+    repeatCount
+= 0
+u128
+    //
+    = false ; i64_
+// trailing space 
+// `tick` ""quote"" 'q'
+= '0' ; //	t
+}
+")).
+Eval vm_compute in ("<<<M483>>>" ++ check (runes_of_ascii "MetaData  As { float32	calculatedFrom
+, BodyLength asx `two words`
+    , }
+options { f32a =
+' ' ; a1  = '\x00'} // trailing space 
+MetaData T {	charz metadata  , lengthOf T	`crlf
+line`	,
+    T
+    rootA
+`
+` , char[] repeatCount
+`it's` ,
+stringy
+rootA, // @lengthOf(
+zchar[ 0123456789 ] MetaDataX ,
+}
+")).
+Eval vm_compute in ("<<<M2058>>>" ++ check (runes_of_ascii "MetaData
+    u { }  options {
+// c
+// @lengthOf(
+float = int8 ;rootA =false ; As =	int16 // `tick` ""quote"" 'q'
+repeatCount
+    // trailing space 
+    =
+    int16
+; u8x =
+    //	t
+    '\x00' ; } options	{
+    repeatCount
+= 0
+u128
+    //
+    = false ; i64_
+// trailing space 
+// `tick` ""quote"" 'q'
+")).
+Eval vm_compute in ("<<<M3765>>>" ++ check (runes_of_ascii "packet
+calculatedFrom{  match
+
+    Logon as u128
+	{
+	[
+1  , 
+""// no comment""  ] 
+:	u8x
+
+""`tick`""
+
+:Header  ,
+	""`tick`""
+
+    :	BodyLength
+	""it's""
+    // a // b
+	  // packet A { u8 x, }
+    : zchar 
+} 	 // " ++ [27880; 37322]%N ++ runes_of_ascii "
+
+,// `tick` ""quote"" 'q'
+
+  char  metadata
+
+@calculatedFrom(	""a\\""	)
+,
+
+}
+")).
+Eval vm_compute in ("<<<M4434>>>" ++ check (runes_of_ascii "  options
+{LittleEndian
+=true
+;
+}
+packet
+    Sub	{
+
+u8  a
+,	@calculatedFrom(
+
+""CRC16""
+) 
+u64	SubSum, 
+}
+root
+	packet Frame
+    {u16
+	MsgType
+
+    ,
+    u16 
+BodyLen@lengthOf( Body), Sub Body	,  string  note, @calculatedFrom(
+""CRC16""
+	)
+	u64
+Checksum ,
+u8 tail	,
+}")).
+Eval vm_compute in ("<<<M4571>>>" ++ check (runes_of_ascii "packet crc {
+    matchKey `tab	here`,
+    repeat f32a {
+        // trailing space 
+        zchar {
+            string uint8x,
+            repeat char[4294967296] msg_type,
+        },
+        roots {
+            zchar[7] u,
+        },
+        uint64 chars,
+    },
+}")).
+Eval vm_compute in ("<<<M1503>>>" ++ check (runes_of_ascii "packet
+//	t
+// trailing space 
+_x {
+// packet A { u8 x, }
+// c
+char[ char[
+3
+    ] u8x @lengthOf(
+u8x ) , @calculatedFrom(""" ++ [128512]%N ++ runes_of_ascii """ // @lengthOf(
+)
+i16	Foo
+@lengthOf(	string_
+    )`doc`	, repeat	i64 metadata , @lengthOf( string_
+) i8 // c
+u  `line1
+line2`	,
+}
+")).
+Eval vm_compute in ("<<<M1538>>>" ++ check (runes_of_ascii "packet
+//	t
+// trailing space 
+_x {
+// packet A { u8 x, }
+// c
+char[
+3
+    ] u8x @lengthOf(
+u8x ) , , @calculatedFrom(""" ++ [128512]%N ++ runes_of_ascii """ // @lengthOf(
+)
+i16	Foo
+@lengthOf(	string_
+    )`doc`	, repeat	i64 metadata , @lengthOf( string_
+) i8 // c
+u  `line1
+line2`	,
+}
+")).
+Eval vm_compute in ("<<<M418>>>" ++ check (runes_of_ascii "/// triple
+root
+packet Logon{@calculatedFrom(	""CRC32""	) uint8x {
+roots pack  `line1
+line2`,},
+    string u
+    ,  }packet body {
+uint64 Logon ,
+}
+    root packet lengthOf { } packet A {u32 pack // `tick` ""quote"" 'q'
+@calculatedFrom(// c
+""" ++ [128512]%N ++ runes_of_ascii """ ) ,
+    }")).
+Eval vm_compute in ("<<<M1610>>>" ++ check (runes_of_ascii "packet
 //	t
 // trailing space 
 _x {
@@ -2361,25 +2031,113 @@ u8x ) , @calculatedFrom(""" ++ [128512]%N ++ runes_of_ascii """ // @lengthOf(
 )
 i16	Foo
 @lengthOf(	string_
-    )`doc`	, repeat	i64 metadata , @lengthOf( string_
-)")).
-Eval vm_compute in ("<<<M1792>>>" ++ check (runes_of_ascii "options { trueish = ""`tick`"" ; string_= """ ++ [233]%N ++ runes_of_ascii "t" ++ [233]%N ++ runes_of_ascii """
+    )`doc`	, repeat	i64 metadata ; @lengthOf( string_
+) i8 // c
+u  `line1
+line2`	,
+}
+")).
+Eval vm_compute in ("<<<M1620>>>" ++ check (runes_of_ascii "packet
+//	t
+// trailing space 
+_x {
+// packet A { u8 x, }
+// c
+char[
+3
+    ] u8x @lengthOf(
+u8x ) , @calculatedFrom(""" ++ [128512]%N ++ runes_of_ascii """ // @lengthOf(
+)
+i16	Foo
+@lengthOf(	string_
+    )`doc`	, repeat	i64 metadata , @lengthOf( @tag(
+) i8 // c
+u  `line1
+line2`	,
+}
+")).
+Eval vm_compute in ("<<<M850>>>" ++ check (runes_of_ascii "
+MetaData Header { } root// " ++ [128512]%N ++ runes_of_ascii " emoji
+packet i8i8{ @rightPad // trailing space 
+(
+'0' )	u16
+u8x @lengthOf( Header )
+`u8 x,`,
+}
+    MetaData
+u128
+{  zchar[ 00 ]falsey, body repeatCount , len
+    repeatCount
+    ,
+u8 chars  `line1
+line2`
+    , }")).
+Eval vm_compute in ("<<<M763>>>" ++ check (runes_of_ascii "packet rootA{
+char[4294967296 ] rootA@calculatedFrom(	""a	b""	) `crlf
+line`, @calculatedFrom( """" )
+// a // b
+// trailing space 
+pack@lengthOf(// packet A { u8 x, }
+rootA)  `
+`,
+@rightPad (
+' ' ) repeat stringy repeatCount`two words`, }")).
+Eval vm_compute in ("<<<M4112>>>" ++ check (runes_of_ascii "
+MetaData 
+a1
+{char[] 
+repeatCount`it's` ,  char[ 
+4294967296 	 // @lengthOf(
+    ] i8i8	// c
+    `// not a comment` 
+
+// packet A { u8 x, }
+,
+	// @lengthOf(
+	/// triple
+float32
+
+zchar
+
+, }
+    packet
+	calculatedFrom
+{ } ")).
+Eval vm_compute in ("<<<M1072>>>" ++ check (runes_of_ascii "/// triple
+packet trueish{ // packet A { u8 x, }
+repeat int`crlf
+line`
+    ,
+    repeat
+    int32 // c
+o
+, } packet
+    string_ {
+T Logon ,i64_	,
+string_
+, char[ 10
+]zchar@lengthOf(
+    u128/// triple
+)`say ""hi""`
+,
+}")).
+Eval vm_compute in ("<<<M1847>>>" ++ check (runes_of_ascii "options { @lengthOftrueish = ""`tick`"" ; string_= """ ++ [233]%N ++ runes_of_ascii "t" ++ [233]%N ++ runes_of_ascii """
     // c
     } root
     packet body { stringy @calculatedFrom(
 ""a	b"" ) `line1
 line2` , }
 packet Logon {
-    @leftPad @leftPad(
+    @leftPad(
     ' ' ) //	t
 u16 string_ `u8 x,` ,
 }
 ")).
-Eval vm_compute in ("<<<M1840>>>" ++ check (runes_of_ascii "options { trueish = ""`tick`"" ; string_= """ ++ [233]%N ++ runes_of_ascii "t" ++ [233]%N ++ runes_of_ascii """
+Eval vm_compute in ("<<<M1752>>>" ++ check (runes_of_ascii "options { trueish = ""`tick`"" ; string_= """ ++ [233]%N ++ runes_of_ascii "t" ++ [233]%N ++ runes_of_ascii """
     // c
     } root
-    packet body { stringy @calculat'\x01'edFrom(
-""a	b"" ) `line1
+    packet body { stringy @calculatedFrom(
+""a	b"" ""a	b"" ) `line1
 line2` , }
 packet Logon {
     @leftPad(
@@ -2433,322 +2191,281 @@ packet Logon {
 u16 string_ `u8 x,` ,
 }
 ")).
-Eval vm_compute in ("<<<M1611>>>" ++ check (runes_of_ascii "packet
-//	t
-// trailing space 
-_x {
-// packet A { u8 x, }
-// c
-char[
-3
-    ] u8x @lengthOf(
-u8x ) , @calculatedFrom(""" ++ [128512]%N ++ runes_of_ascii """ // @lengthOf(
-)
-i16	Foo
-@lengthOf(	string_
-    )`doc`	, repeat	i64 metadata")).
-Eval vm_compute in ("<<<M4349>>>" ++ check (runes_of_ascii "
-//
-packet	int
-    {  @leftPad	('\x00') MetaDataX @lengthOf( u128
-    )
-
-    ,u
-
-    a1`doc`
-
-    ,
-	@calculatedFrom(
-""a\""b""
-    ) i16
-repeatCount  // @lengthOf(
-
-	`tab	here`  ,
-    }")).
-Eval vm_compute in ("<<<M4386>>>" ++ check (runes_of_ascii "packet A
-{
-u8 a ,	}
-	packet
-B
-{
-u16
-
-    b
-
-,}root packet
-    P {
-u8 K1
-
-    , 
-u8 K2,
-    match
-    K1 as  M1
-{ 
-1
-
-    :A 
-, },	match	K2 as
-M2
-{
-    1	:B
-
-, }
-
-    ,
-}
-
-")).
-Eval vm_compute in ("<<<M187>>>" ++ check (runes_of_ascii "root packet u128 { char[  7 ]tag@calculatedFrom(
-""\" ++ [233]%N ++ runes_of_ascii """
-    ) // " ++ [128512]%N ++ runes_of_ascii " emoji
-`" ++ [233]%N ++ runes_of_ascii "`, @rightPad ( )
-    packetx , @lengthOf(  o
-    )	lengthOf
-@lengthOf( float )
-`// not a comment`,
+Eval vm_compute in ("<<<M1672>>>" ++ check (runes_of_ascii " { trueish = ""`tick`"" ; string_= """ ++ [233]%N ++ runes_of_ascii "t" ++ [233]%N ++ runes_of_ascii """
+    // c
+    } root
+    packet body { stringy @calculatedFrom(
+""a	b"" ) `line1
+line2` , }
+packet Logon {
+    @leftPad(
+    ' ' ) //	t
+u16 string_ `u8 x,` ,
 }
 ")).
-Eval vm_compute in ("<<<M742>>>" ++ check (runes_of_ascii "options { packetx
-=zchar[4294967296 ] ; }
-options {	} MetaData uint8x {char[ 3 ]	o `
-`
-// a // b
-// `tick` ""quote"" 'q'
-, crc string_ ,
-    char[]
-int,// trailing space 
+Eval vm_compute in ("<<<M879>>>" ++ check (runes_of_ascii "options	{ Foo =1	i64_ =char[]
+    /// triple
+    ; string_//
+=
+uint16 ;  chars = char[] ;//	t
+}root
+packet msg_type{ body, @calculatedFrom(// " ++ [27880; 37322]%N ++ runes_of_ascii "
+""packet"" ) repeat zchar[ 4294967296 ]	u128
+,
 }")).
-Eval vm_compute in ("<<<M339>>>" ++ check (runes_of_ascii "//
-packet
-int {@leftPad (
-    '\x00' ) MetaDataX @lengthOf( u128 ) ,u
-    a1 `doc` ,
-    @calculatedFrom(
-    ""a\""b"") i16 repeatCount // @lengthOf(
-`tab	here`
-, }")).
-Eval vm_compute in ("<<<M473>>>" ++ check (runes_of_ascii "packet
-    o {  asx @calculatedFrom( ""CRC32""	)// " ++ [27880; 37322]%N ++ runes_of_ascii "
-`it's`
-    ,// @lengthOf(
-@tag( 255 )
-int16 T	, string
-msg_type `
-`
-, } // trailing space 
-packet Z9_ {	}
+Eval vm_compute in ("<<<M4527>>>" ++ check (runes_of_ascii "
+
+  root
+packet  u128{char[ 7 
+]
+
+tag@calculatedFrom( 
+""\" ++ [233]%N ++ runes_of_ascii """ )	// " ++ [128512]%N ++ runes_of_ascii " emoji
+	`" ++ [233]%N ++ runes_of_ascii "`
+
+    ,@rightPad	( )  packetx
+
+,
+    @lengthOf(o
+)
+    lengthOf	@lengthOf( float )
+`// not a comment`
+,
+
+}
 ")).
-Eval vm_compute in ("<<<M1174>>>" ++ check (runes_of_ascii "packet  charz { // packet A { u8 x, }
-repeat len packetx  , }
-options{string_=false
-    ;crc=007
-; _x = ""a	b""
-// " ++ [128512]%N ++ runes_of_ascii " emoji
-// trailing space 
-;Z9_ = int16 }
-")).
-Eval vm_compute in ("<<<M2392>>>" ++ check (runes_of_ascii "// c
+Eval vm_compute in ("<<<M4300>>>" ++ check (runes_of_ascii "// top
+root packet matchKey {
+    // c3
+    zchar[3] pack @calculatedFrom(""a	b"") `doc`,
+}
+
+options {
+}// c16
+
+MetaData A {
+    // c19a
+    // c19b
+    int8 msg_type,
+    // c22
+}")).
+Eval vm_compute in ("<<<M1974>>>" ++ check (runes_of_ascii "MetaData
+    u { }  options {
+// c
+// @lengthOf(
+float = int8 ;rootA =false ; As =	int16 // `tick` ""quote"" 'q'
+repeatCount
+    // trailing space 
+    =
+    int16
+; u8x =")).
+Eval vm_compute in ("<<<M1964>>>" ++ check (runes_of_ascii "MetaData
+    u { }  options {
+// c
+// @lengthOf(
+float = int8 ;rootA =false ; As =	int16 // `tick` ""quote"" 'q'
+repeatCount
+    // trailing space 
+    =
+    int16
+;")).
+Eval vm_compute in ("<<<M2195>>>" ++ check (runes_of_ascii "options{
+_x
+= true
+} options
+@leftpad { o	= /// triple
+false
+    ; chars
+= ""\n"" } root packet	Pad
+/// triple
+// packet A { u8 x, }
+{	chars
+    // a // b
+    ,}")).
+Eval vm_compute in ("<<<M2381>>>" ++ check (runes_of_ascii "// c
 packet x { @lengthOf( metadata ) repeat lengthOf
+,caf" ++ [233]%N ++ runes_of_ascii "_1{
+trueish	,// c
+repeat//	t
+MetaDataX , } , zchar[
+    42	] rootA // `tick` ""quote"" 'q'
+,
+    }
+")).
+Eval vm_compute in ("<<<M2360>>>" ++ check (runes_of_ascii "// c
+packet x { @lengthOf( metadata ) repeat lengthOf
+,a1{
+trueish	,// c
+repeat//	t
+MetaDataX , } } , zchar[
+    42	] rootA // `tick` ""quote"" 'q'
+,
+    }
+")).
+Eval vm_compute in ("<<<M2100>>>" ++ check (runes_of_ascii "options{
+_x
+= true
+} } options
+{ o	= /// triple
+false
+    ; chars
+= ""\n"" } root packet	Pad
+/// triple
+// packet A { u8 x, }
+{	chars
+    // a // b
+    ,}")).
+Eval vm_compute in ("<<<M960>>>" ++ check (runes_of_ascii "// packet A { u8 x, }
+root  packet Logon/// triple
+{A`doc` , string len ,
+} MetaData len	{int64 i8i8`{ , }`, }
+packet // " ++ [27880; 37322]%N ++ runes_of_ascii "
+lengthOf {i64 Header
+,} //	t")).
+Eval vm_compute in ("<<<M2096>>>" ++ check (runes_of_ascii "options{
+_x
+= }
+true options
+{ o	= /// triple
+false
+    ; chars
+= ""\n"" } root packet	Pad
+/// triple
+// packet A { u8 x, }
+{	chars
+    // a // b
+    ,}")).
+Eval vm_compute in ("<<<M2087>>>" ++ check (runes_of_ascii "options{
+]
+= true
+} options
+{ o	= /// triple
+false
+    ; chars
+= ""\n"" } root packet	Pad
+/// triple
+// packet A { u8 x, }
+{	chars
+    // a // b
+    ,}")).
+Eval vm_compute in ("<<<M2348>>>" ++ check (runes_of_ascii "// c
+{ x { @lengthOf( metadata ) repeat lengthOf
 ,a1{
 trueish	,// c
 repeat//	t
 MetaDataX , } , zchar[
     42	] rootA // `tick` ""quote"" 'q'
 ,
-    } }
-")).
-Eval vm_compute in ("<<<M2170>>>" ++ check (runes_of_ascii "options{
-_x
-= true
-} options
-{ o	= /// triple
-false
-    ; chars
-= ""\n"" } root packet	Pad
-/// triple
-// packet A { u8 x, }
-{ {	chars
-    // a // b
-    ,}")).
-Eval vm_compute in ("<<<M2186>>>" ++ check (runes_of_ascii "options{
-_x
-= true
-} options
-{ o	= /// triple
-false
-    ; chars
-= ""\n"" } root packet	Pad
-/// triple
-// packet A { u8 x, }
-{	chars
-    // a // b
-    ,as")).
-Eval vm_compute in ("<<<M2121>>>" ++ check (runes_of_ascii "options{
-_x
-= true
-} options
-{ o	false /// triple
-=
-    ; chars
-= ""\n"" } root packet	Pad
-/// triple
-// packet A { u8 x, }
-{	chars
-    // a // b
-    ,}")).
-Eval vm_compute in ("<<<M2157>>>" ++ check (runes_of_ascii "options{
-_x
-= true
-} options
-{ o	= /// triple
-false
-    ; chars
-= ""\n"" } '0' packet	Pad
-/// triple
-// packet A { u8 x, }
-{	chars
-    // a // b
-    ,}")).
-Eval vm_compute in ("<<<M2094>>>" ++ check (runes_of_ascii "options{
-_x
-= 
-} options
-{ o	= /// triple
-false
-    ; chars
-= ""\n"" } root packet	Pad
-/// triple
-// packet A { u8 x, }
-{	chars
-    // a // b
-    ,}")).
-Eval vm_compute in ("<<<M3708>>>" ++ check (runes_of_ascii "  packet A {
-
-    match
-k as
-    n
-
-{
-[""a"",
-	""bb"",
-
-007
-,
-	""d""	,
-""e""
-	,
-	66, ""g"" ,  ""h"" 
-,
-	9
-,""j"",
-
-    ""k""
-]
-:
-
-    B
-, 2:	C
-	} ,  }
-
-")).
-Eval vm_compute in ("<<<M594>>>" ++ check (runes_of_ascii "packet
-i8i8 {int32 As, options1{
-    repeat
-int{
-    //
-    uint16
-u, // a // b
-zchar`say ""hi""`
-// " ++ [128512]%N ++ runes_of_ascii " emoji
-//	t
-,
-char[] trueish , }, } ,
-}")).
-Eval vm_compute in ("<<<M788>>>" ++ check (runes_of_ascii "MetaData //x
-matchKey {u calculatedFrom, } root packet u128 {string BodyLength @lengthOf( u8x ) , int @lengthOf( f32a ) `" ++ [28040; 24687; 31867; 22411]%N ++ runes_of_ascii "`
-    , } 	 ")).
-Eval vm_compute in ("<<<M12>>>" ++ check (runes_of_ascii "packet
-    charz //
-{ @rightPad( '0')
-repeat
-    //x
-    Packet//x
-msg_type `" ++ [233]%N ++ runes_of_ascii "`	, } options {repeatCount
-= false falsey  = int64
-}")).
-Eval vm_compute in ("<<<M787>>>" ++ check (runes_of_ascii "packet MetaDataX
-    //
-    { @calculatedFrom( ""it's""
-    )	repeat int8 u128
-// packet A { u8 x, }
-//	t
-`// not a comment`
-, }")).
-Eval vm_compute in ("<<<M1450>>>" ++ check (runes_of_ascii "
-packet
-    falsey { Header@calculatedFrom(""packet""  ) , char[
-    0123456789 options packetx
-    , } // `tick` ""quote"" 'q'")).
-Eval vm_compute in ("<<<M3314>>>" ++ check (runes_of_ascii "root packet // c
-matchKey { zchar[ 3 ] pack @calculatedFrom( ""a	b"" ) `doc` , } options { } MetaData A { int8 msg_type , }")).
-Eval vm_compute in ("<<<M3346>>>" ++ check (runes_of_ascii "root packet matchKey { zchar[ 3 ] pack @calculatedFrom( ""a	b"" ) `doc` , } options { } MetaData // c
-A { int8 msg_type , }")).
-Eval vm_compute in ("<<<M3683>>>" ++ check (runes_of_ascii "root packet  u  { @leftPad 
-(
-    ' ' 
-	    // packet A { u8 x, }
-	) char[ 7 ] msg_type
-	@lengthOf(
-Header	)
-    ,}
-")).
-Eval vm_compute in ("<<<M1439>>>" ++ check (runes_of_ascii "
-packet
-    falsey { Header@calculatedFrom(""packet""  ) , 0123456789
-    char[ ] packetx
-    , } // `tick` ""quote"" 'q'")).
-Eval vm_compute in ("<<<M2189>>>" ++ check (runes_of_ascii "options{
-_x
-= true
-} options
-{ o	= /// triple
-false
-    ; chars
-= ""\n"" } root packet	Pad
-/// triple
-// packet A {")).
-Eval vm_compute in ("<<<M589>>>" ++ check (runes_of_ascii "
-options
-    {
-} MetaData u8x{	i32 int // a // b
-, i64 A ,
-    o Z9_ `tab	here`
-    ,
-    // @lengthOf(
     }
 ")).
-Eval vm_compute in ("<<<M3843>>>" ++ check (runes_of_ascii "
-
-  packet
-o{ repeat
-    Logon
-
-    uint8x,
-
-}options{asx
-	=
-    zchar[  3 
-]
-	stringy =  '\x00'	// c
-	}
+Eval vm_compute in ("<<<M2333>>>" ++ check (runes_of_ascii "// c
+packet x { @lengthOf( metadata ) repeat (
+,a1{
+trueish	,// c
+repeat//	t
+MetaDataX , } , zchar[
+    42	] rootA // `tick` ""quote"" 'q'
+,
+    }
 ")).
-Eval vm_compute in ("<<<M2992>>>" ++ check (runes_of_ascii "packet A {
-  match k as n {
-    [1, ""bb"", 007, ""d"", 5, ""f"", 7, ""h"", 9, ""j"", 11, ""l""] : B,
-    2 : C
-  },
+Eval vm_compute in ("<<<M852>>>" ++ check (runes_of_ascii "MetaData calculatedFrom{
+// @lengthOf(
+// a // b
+string Packet // a // b
+,
+zchar[
+    42
+    ] msg_type , char[
+    3] u128
+, i16 f32a , }
+
+")).
+Eval vm_compute in ("<<<M4079>>>" ++ check (runes_of_ascii "packet A {
+    match k as n {
+        [
+            1, ""bb"", 007, ""d"", 5,
+            ""f"", 7, ""h"", 9
+        ] : B,
+        2 : C,
+    },
 }")).
-Eval vm_compute in ("<<<M3010>>>" ++ check (runes_of_ascii "packet A {
+Eval vm_compute in ("<<<M1780>>>" ++ check (runes_of_ascii "options { trueish = ""`tick`"" ; string_= """ ++ [233]%N ++ runes_of_ascii "t" ++ [233]%N ++ runes_of_ascii """
+    // c
+    } root
+    packet body { stringy @calculatedFrom(
+""a	b"" ) `line1
+line2` , }")).
+Eval vm_compute in ("<<<M828>>>" ++ check (runes_of_ascii "packet stringy
+{
+repeat
+    roots  {
+    u64 pack
+`doc` , char[ 7 ] Z9_@calculatedFrom(""abc"" )
+`` , zchar lengthOf  `
+` ,
+}
+, }")).
+Eval vm_compute in ("<<<M1403>>>" ++ check (runes_of_ascii "
+packet
+    falsey falsey { Header@calculatedFrom(""packet""  ) , char[
+    0123456789 ] packetx
+    , } // `tick` ""quote"" 'q'")).
+Eval vm_compute in ("<<<M540>>>" ++ check (runes_of_ascii "MetaData T {
+i64 body `
+`// c
+, string packetx, int
+Pad , // @lengthOf(
+char[]  A `" ++ [233]%N ++ runes_of_ascii "`, i8i8 float ,repeatCount
+    o , }
+")).
+Eval vm_compute in ("<<<M3340>>>" ++ check (runes_of_ascii "root packet matchKey { zchar[ 3 ] pack @calculatedFrom( ""a	b"" ) `doc` , } options // c
+{ } MetaData A { int8 msg_type , }")).
+Eval vm_compute in ("<<<M1460>>>" ++ check (runes_of_ascii "
+packet
+    falsey { Header@calculatedFrom(""packet""  ) , char[
+    0123456789 ] packetx
+    u64 } // `tick` ""quote"" 'q'")).
+Eval vm_compute in ("<<<M1400>>>" ++ check (runes_of_ascii "
+falsey
+    packet { Header@calculatedFrom(""packet""  ) , char[
+    0123456789 ] packetx
+    , } // `tick` ""quote"" 'q'")).
+Eval vm_compute in ("<<<M1487>>>" ++ check (runes_of_ascii "
+packet
+    na" ++ [239]%N ++ runes_of_ascii "ve { Header@calculatedFrom(""packet""  ) , char[
+    0123456789 ] packetx
+    , } // `tick` ""quote"" 'q'")).
+Eval vm_compute in ("<<<M1445>>>" ++ check (runes_of_ascii "
+packet
+    falsey { Header@calculatedFrom(""packet""  ) , char[
+    false ] packetx
+    , } // `tick` ""quote"" 'q'")).
+Eval vm_compute in ("<<<M1241>>>" ++ check (runes_of_ascii "packet T {@rightPad
+() @tag(00
+    ) char[]
+a1
+    @calculatedFrom(
+    ""a\""b""
+    )
+    `two words`
+    , }
+")).
+Eval vm_compute in ("<<<M845>>>" ++ check (runes_of_ascii "packet zchar { @lengthOf( i8i8 ) int16
+msg_type @lengthOf(
+    // c
+    As // `tick` ""quote"" 'q'
+) `
+`
+,}
+")).
+Eval vm_compute in ("<<<M4466>>>" ++ check (runes_of_ascii "MetaData string_ {
+    Header u128 `tab	here`,
+    i64 Z9_,
+    x matchKey,
+    string u,
+    f64 Foo,
+}")).
+Eval vm_compute in ("<<<M3004>>>" ++ check (runes_of_ascii "packet A {
     Inner {
         u8 x `a
 b`,
@@ -2758,211 +2475,230 @@ b`,
         },
     },
 }")).
-Eval vm_compute in ("<<<M3603>>>" ++ check (runes_of_ascii "  packet
-    FooBar
-{
-u8
+Eval vm_compute in ("<<<M4612>>>" ++ check (runes_of_ascii "packet o {
+    repeat Logon uint8x,
+}
 
-a
-, }	packet
-
-foo_bar{
-u16  b	,}
-root
-packet R
-
-{
-	FooBar 
-, foo_bar,} ")).
-Eval vm_compute in ("<<<M2988>>>" ++ check (runes_of_ascii "packet A {
+options {
+    asx = zchar[3]
+    // c
+    stringy = '\x00'
+}")).
+Eval vm_compute in ("<<<M2939>>>" ++ check (runes_of_ascii "packet A {
   match k as n {
-    [1, 22, 007, 4, 5, 66, 7, 8, 9, 10, 11, 12] : B,
+    [""a"", ""bb"", ""c c"", ""d"", ""e"", ""f"", ""g"", ""h""] : B
     2 : C
   },
 }")).
-Eval vm_compute in ("<<<M317>>>" ++ check (runes_of_ascii "packet
-crc { @lengthOf( falsey )Packet /// triple
-`crlf
-line`
-    // trailing space 
-    ,
+Eval vm_compute in ("<<<M721>>>" ++ check (runes_of_ascii "MetaData A  {zchar[42 ]string_ ,}MetaData u{
+    // a // b
+    } options {
+o
+= ""CRC32""
+;  }
+
+")).
+Eval vm_compute in ("<<<M2267>>>" ++ check (runes_of_ascii "options
+{ } options { BodyLength= u16 Header= f64 ; u128 u128 =
+    true
+    ; } // a // b")).
+Eval vm_compute in ("<<<M4131>>>" ++ check (runes_of_ascii "packet o {
+    repeat Logon uint8x,
+}
+
+options {
+    asx = zchar[3]
+    stringy = '\x00'
+}")).
+Eval vm_compute in ("<<<M3288>>>" ++ check (runes_of_ascii "MetaData float { float64 charz `
+` , } root packet
+// c
+chars { @rightPad ( '0' ) Foo , }")).
+Eval vm_compute in ("<<<M3499>>>" ++ check (runes_of_ascii "packet chars { } packet MetaDataX { @tag( // c
+42 ) i16 string_ , repeat x `say ""hi""` , }")).
+Eval vm_compute in ("<<<M2262>>>" ++ check (runes_of_ascii "options
+{ } options { BodyLength= u16 Header= f64 ; ; u128 =
+    true
+    ; } // a // b")).
+Eval vm_compute in ("<<<M2912>>>" ++ check (runes_of_ascii "packet A {
+  match k as n {
+    [""a"", ""bb"", ""c c"", ""d"", ""e"", ""f""] : B,
+    2 : C
+  },
+}")).
+Eval vm_compute in ("<<<M2273>>>" ++ check (runes_of_ascii "options
+{ } options { BodyLength= u16 Header= f64 ; u128 true
+    =
+    ; } // a // b")).
+Eval vm_compute in ("<<<M3239>>>" ++ check (runes_of_ascii "packet metadata { Logon { A `" ++ [28040; 24687; 31867; 22411]%N ++ runes_of_ascii "` , tag o , } , zchar // c
+len `// not a comment` , }")).
+Eval vm_compute in ("<<<M3430>>>" ++ check (runes_of_ascii "packet
+// c
+o { repeat Logon uint8x , } options { asx = zchar[ 3 ] stringy = '\x00' }")).
+Eval vm_compute in ("<<<M3462>>>" ++ check (runes_of_ascii "packet o { repeat Logon uint8x , } options { asx = zchar[ 3 ] stringy =
+// c
+'\x00' }")).
+Eval vm_compute in ("<<<M2279>>>" ++ check (runes_of_ascii "options
+{ } options { BodyLength= u16 Header= f64 ; u128 =
+    [
+    ; } // a // b")).
+Eval vm_compute in ("<<<M3405>>>" ++ check (runes_of_ascii "MetaData body { i64 pack `it's`
+// c
+, } packet stringy { int16 calculatedFrom , }")).
+Eval vm_compute in ("<<<M2937>>>" ++ check (runes_of_ascii "packet A {
+  match k as n {
+    [1, 22, 007, 4, 5, 66, 7, 8] : B
+    2 : C
+  },
+}")).
+Eval vm_compute in ("<<<M3536>>>" ++ check (runes_of_ascii "packet Inner {
+    u8 a,
+}
+root packet P {
+    repeat Inner items,
+    u8 x,
 }
 ")).
-Eval vm_compute in ("<<<M2925>>>" ++ check (runes_of_ascii "packet A {
-  match k as n {
-    [""a"", ""bb"", ""c c"", ""d"", ""e"", ""f"", ""g""] : B,
-    2 : C
-  },
-}")).
-Eval vm_compute in ("<<<M3305>>>" ++ check (runes_of_ascii "MetaData float { float64 charz `
-` , } root packet chars { @rightPad ( '0' ) Foo , } // c
+Eval vm_compute in ("<<<M630>>>" ++ check (runes_of_ascii "packet u { repeat uint64 Pad
+`a\` ,} packet string_ { repeat a1 Packet
+,}
 ")).
-Eval vm_compute in ("<<<M3282>>>" ++ check (runes_of_ascii "MetaData float { float64 charz `
-` ,
-// c
-} root packet chars { @rightPad ( '0' ) Foo , }")).
-Eval vm_compute in ("<<<M3493>>>" ++ check (runes_of_ascii "packet chars { } packet // c
-MetaDataX { @tag( 42 ) i16 string_ , repeat x `say ""hi""` , }")).
-Eval vm_compute in ("<<<M2213>>>" ++ check (runes_of_ascii "options
-{ { } options { BodyLength= u16 Header= f64 ; u128 =
-    true
-    ; } // a // b")).
-Eval vm_compute in ("<<<M2300>>>" ++ check (runes_of_ascii "options
-{ } options { BodyLength= u16 Header|= f64 ; u128 =
-    true
-    ; } // a // b")).
-Eval vm_compute in ("<<<M2229>>>" ++ check (runes_of_ascii "options
-{ } options ) BodyLength= u16 Header= f64 ; u128 =
-    true
-    ; } // a // b")).
-Eval vm_compute in ("<<<M3232>>>" ++ check (runes_of_ascii "packet metadata { Logon { A `" ++ [28040; 24687; 31867; 22411]%N ++ runes_of_ascii "` , tag o
-// c
-, } , zchar len `// not a comment` , }")).
-Eval vm_compute in ("<<<M2261>>>" ++ check (runes_of_ascii "options
-{ } options { BodyLength= u16 Header= f64  u128 =
-    true
-    ; } // a // b")).
-Eval vm_compute in ("<<<M3452>>>" ++ check (runes_of_ascii "packet o { repeat Logon uint8x , } options { asx =
-// c
-zchar[ 3 ] stringy = '\x00' }")).
-Eval vm_compute in ("<<<M832>>>" ++ check (runes_of_ascii "options
-{A =
-char ; } MetaData// @lengthOf(
-metadata { crc matchKey `u8 x,` ,
-    }")).
-Eval vm_compute in ("<<<M3397>>>" ++ check (runes_of_ascii "MetaData body
-// c
-{ i64 pack `it's` , } packet stringy { int16 calculatedFrom , }")).
-Eval vm_compute in ("<<<M2900>>>" ++ check (runes_of_ascii "packet A {
-  match k as n {
-    [""a"", ""bb"", ""c c"", ""d"", ""e""] : B
-    2 : C
-  },
-}")).
-Eval vm_compute in ("<<<M3000>>>" ++ check (runes_of_ascii "packet A { Inner { match k as n { [1,22,007,4,5,66,7,8,9,10,11,12] : B, }, }, }")).
-Eval vm_compute in ("<<<M885>>>" ++ check (runes_of_ascii "
-packet msg_type { @tag(// " ++ [27880; 37322]%N ++ runes_of_ascii "
-00 //	t
-)
-zchar[ 0123456789 ] //	t
-rootA	, }")).
-Eval vm_compute in ("<<<M738>>>" ++ check (runes_of_ascii "MetaData Foo { char[ 4294967296  ] BodyLength
-    //
-    `tab	here`
-, }
-")).
-Eval vm_compute in ("<<<M4356>>>" ++ check (runes_of_ascii "
-
-  packet  A
-{ u8
-x , }	// a
-// b
-	packet
-B {
-    }// c
-    // d
- 
-")).
-Eval vm_compute in ("<<<M2750>>>" ++ check (runes_of_ascii ") u64 @calculatedFrom( '0' match } packet root float @rightPad { 42")).
-Eval vm_compute in ("<<<M490>>>" ++ check (runes_of_ascii "MetaData pack{
-    }
-packet i64_ {
-    uint16 T , // a // b
-} 	 ")).
-Eval vm_compute in ("<<<M302>>>" ++ check (runes_of_ascii "
-packet
-    // a // b
-    matchKey{ @tag(//
-0 ) repeat u ,}
-
-")).
-Eval vm_compute in ("<<<M2280>>>" ++ check (runes_of_ascii "options
-{ } options { BodyLength= u16 Header= f64 ; u128 =")).
-Eval vm_compute in ("<<<M3372>>>" ++ check (runes_of_ascii "packet x { @rightPad
-// c
-( ) repeat roots Logon `doc` , }")).
-Eval vm_compute in ("<<<M4209>>>" ++ check (runes_of_ascii "MetaData M {
-    u8 x `
-        `,
-    T t `
-        `,
-}")).
-Eval vm_compute in ("<<<M1172>>>" ++ check (runes_of_ascii "options
-    { Logon
-= ' ' } MetaData
-BodyLength{  }
-")).
-Eval vm_compute in ("<<<M3169>>>" ++ check (runes_of_ascii "packet A { B { // a
- u8 x, // b
- } // c
- , // d
- }")).
-Eval vm_compute in ("<<<M3011>>>" ++ check (runes_of_ascii "MetaData M {
-    u8 x `a
-b`,
-    T t `a
-b`,
-}")).
-Eval vm_compute in ("<<<M2836>>>" ++ check (runes_of_ascii "u16 options zchar[ char[] match i32 42 repeat")).
-Eval vm_compute in ("<<<M3041>>>" ++ check (runes_of_ascii "MetaData M {
-    u8 x `
-x`,
-    T t `
-x`,
-}")).
-Eval vm_compute in ("<<<M448>>>" ++ check (runes_of_ascii "  MetaData chars { len metadata ,
-    }
-")).
-Eval vm_compute in ("<<<M1357>>>" ++ check (runes_of_ascii "
-packet /// triple
-BodyLength
+Eval vm_compute in ("<<<M97>>>" ++ check (runes_of_ascii "options // " ++ [27880; 37322]%N ++ runes_of_ascii "
 {
+// packet A { u8 x, }
+// a // b
+}
+    packet T {
     }
 ")).
-Eval vm_compute in ("<<<M3159>>>" ++ check (runes_of_ascii "MetaData M {
-}// c
-MetaData N {
-}// d")).
-Eval vm_compute in ("<<<M2362>>>" ++ check (runes_of_ascii "// c
-packet x { @lengthOf( metadata")).
-Eval vm_compute in ("<<<M3030>>>" ++ check (runes_of_ascii "root packet A {
-    u8 x `a
-
-b`,
-}")).
-Eval vm_compute in ("<<<M2566>>>" ++ check (runes_of_ascii "packet A { repeat repeat u8 x, }")).
-Eval vm_compute in ("<<<M1469>>>" ++ check (runes_of_ascii "
+Eval vm_compute in ("<<<M1516>>>" ++ check (runes_of_ascii "packet
+//	t
+// trailing space 
+_x {
+// packet A { u8 x, }
+// c
+char[
+3")).
+Eval vm_compute in ("<<<M3905>>>" ++ check (runes_of_ascii "
+options 
+      // a // b
+  { float 
+= char[
+4294967296 
+] 
+;
+}
+")).
+Eval vm_compute in ("<<<M3576>>>" ++ check (runes_of_ascii "  root
 packet
-    falsey { Header@ca")).
-Eval vm_compute in ("<<<M1247>>>" ++ check (runes_of_ascii "options { lengthOf	=7;
+
+P {u8
+s_u8
+    ,repeat u8 r_u8 ,u16
+b_len
+,  }
+")).
+Eval vm_compute in ("<<<M4102>>>" ++ check (runes_of_ascii "
+MetaData
+
+M
+
+{
+u8
+	x
+`a
+    b
+  c` ,
+T
+t
+	`a
+    b
+  c` ,
+}")).
+Eval vm_compute in ("<<<M3802>>>" ++ check (runes_of_ascii "packet calculatedFrom {
+    u32 metadata @lengthOf(Logon),
+}")).
+Eval vm_compute in ("<<<M3363>>>" ++ check (runes_of_ascii "// c
+packet x { @rightPad ( ) repeat roots Logon `doc` , }")).
+Eval vm_compute in ("<<<M3014>>>" ++ check (runes_of_ascii "packet A {
+    B b `
+`,
+    B `
+`,
+    repeat B bs `
+`,
+}")).
+Eval vm_compute in ("<<<M4206>>>" ++ check (runes_of_ascii "packet A {
+    u8 x,
+}// a
+
+// b
+packet B {
+}// c
+// d")).
+Eval vm_compute in ("<<<M3163>>>" ++ check (runes_of_ascii "packet A { u8 x, } // a
+// b
+packet B {} // c
+// d")).
+Eval vm_compute in ("<<<M2842>>>" ++ check (runes_of_ascii "uint16 int16 ; = char[ @leftPad repeat u16 [ as")).
+Eval vm_compute in ("<<<M2650>>>" ++ check (runes_of_ascii "MetaData M { u8 x `d` , y z `e`, char[3] w, }")).
+Eval vm_compute in ("<<<M229>>>" ++ check (runes_of_ascii "packet float { }	packet
+body
+    { }
+//x
+")).
+Eval vm_compute in ("<<<M2702>>>" ++ check ([11]%N ++ runes_of_ascii "d" ++ [65533]%N ++ runes_of_ascii "g" ++ [65533; 65533; 65533; 65533]%N ++ runes_of_ascii "(" ++ [29]%N ++ runes_of_ascii "0" ++ [65533; 65533]%N ++ runes_of_ascii "O" ++ [65533]%N ++ runes_of_ascii "[Y" ++ [65533; 65533]%N ++ runes_of_ascii "1p" ++ [65533]%N ++ runes_of_ascii "f" ++ [65533; 65533; 14]%N ++ runes_of_ascii "}`" ++ [7]%N ++ runes_of_ascii "g" ++ [65533; 65533]%N ++ runes_of_ascii "#k" ++ [65533; 65533; 65533; 65533]%N ++ runes_of_ascii "L")).
+Eval vm_compute in ("<<<M3922>>>" ++ check (runes_of_ascii "  packet
+i8i8 
+{
+
+    } 
+        // c")).
+Eval vm_compute in ("<<<M137>>>" ++ check (runes_of_ascii "//x
+MetaData falsey{ string Pad , }
+")).
+Eval vm_compute in ("<<<M2642>>>" ++ check (runes_of_ascii "root packet A { } root packet B { }")).
+Eval vm_compute in ("<<<M682>>>" ++ check (runes_of_ascii "  MetaData
+    options1  {
     }
 ")).
-Eval vm_compute in ("<<<M2624>>>" ++ check (runes_of_ascii "packet A { @leftPad u8 x, }")).
-Eval vm_compute in ("<<<M3262>>>" ++ check (runes_of_ascii "root packet pack { } // c
+Eval vm_compute in ("<<<M3147>>>" ++ check (runes_of_ascii "packet A {
+ u8 x `d x`, // c x
+}")).
+Eval vm_compute in ("<<<M2732>>>" ++ check ([65533; 2]%N ++ runes_of_ascii "+" ++ [65533]%N ++ runes_of_ascii "q" ++ [30]%N ++ runes_of_ascii "~#" ++ [65533; 65533]%N ++ runes_of_ascii "?&4" ++ [65533]%N ++ runes_of_ascii "ve" ++ [65533; 65533; 65533]%N ++ runes_of_ascii "j" ++ [65533; 65533; 3; 65533; 65533; 25; 16; 65533; 65533; 29]%N)).
+Eval vm_compute in ("<<<M2756>>>" ++ check (runes_of_ascii "P={<`""w|U c%74a5s%ZJ!a{B`/*I$")).
+Eval vm_compute in ("<<<M2649>>>" ++ check (runes_of_ascii "MetaData M { repeat u8 x, }")).
+Eval vm_compute in ("<<<M3263>>>" ++ check (runes_of_ascii "root packet pack { }
+// c
 ")).
-Eval vm_compute in ("<<<M1141>>>" ++ check (runes_of_ascii "root packet len
-    { }
+Eval vm_compute in ("<<<M831>>>" ++ check (runes_of_ascii "packet u8x {int8 As ,}
 ")).
-Eval vm_compute in ("<<<M2564>>>" ++ check (runes_of_ascii "packet A { repeat u8 }")).
-Eval vm_compute in ("<<<M2645>>>" ++ check (runes_of_ascii "MetaData M { u8 x, }")).
-Eval vm_compute in ("<<<M2670>>>" ++ check (runes_of_ascii "options options { }")).
-Eval vm_compute in ("<<<M2725>>>" ++ check (runes_of_ascii "Sq]fX""YE68*gwilIN=")).
-Eval vm_compute in ("<<<M3136>>>" ++ check (runes_of_ascii "// c" ++ [65279]%N ++ runes_of_ascii "
+Eval vm_compute in ("<<<M141>>>" ++ check (runes_of_ascii "packet Header {
+    }
+")).
+Eval vm_compute in ("<<<M465>>>" ++ check (runes_of_ascii "MetaData Z9_
+    {
+}")).
+Eval vm_compute in ("<<<M2565>>>" ++ check (runes_of_ascii "packet A { repeat }")).
+Eval vm_compute in ("<<<M2659>>>" ++ check (runes_of_ascii "options { a = b; }")).
+Eval vm_compute in ("<<<M3131>>>" ++ check (runes_of_ascii "// c" ++ [8203]%N ++ runes_of_ascii "
 packet A {
 }")).
-Eval vm_compute in ("<<<M3098>>>" ++ check (runes_of_ascii "packet A {
-}// c" ++ [8233]%N)).
-Eval vm_compute in ("<<<M2494>>>" ++ check (runes_of_ascii "@calculatedFrom")).
-Eval vm_compute in ("<<<M929>>>" ++ check (runes_of_ascii "
-// " ++ [128512]%N ++ runes_of_ascii " emoji
+Eval vm_compute in ("<<<M3093>>>" ++ check (runes_of_ascii "packet A {
+}// c" ++ [8232]%N)).
+Eval vm_compute in ("<<<M1366>>>" ++ check (runes_of_ascii "
+// @lengthOf(
 ")).
+Eval vm_compute in ("<<<M4455>>>" ++ check (runes_of_ascii "// @lengthOf(")).
 Eval vm_compute in ("<<<M2541>>>" ++ check (runes_of_ascii ":,;=()[]{}")).
-Eval vm_compute in ("<<<M3730>>>" ++ check (runes_of_ascii "// " ++ [27880; 37322]%N ++ runes_of_ascii "
- 
+Eval vm_compute in ("<<<M363>>>" ++ check (runes_of_ascii "// c
+
+
 ")).
-Eval vm_compute in ("<<<M2452>>>" ++ check (runes_of_ascii "falsey")).
-Eval vm_compute in ("<<<M2490>>>" ++ check (runes_of_ascii "@tag(")).
-Eval vm_compute in ("<<<M2448>>>" ++ check (runes_of_ascii "true")).
-Eval vm_compute in ("<<<M2472>>>" ++ check (runes_of_ascii "' '")).
-Eval vm_compute in ("<<<M2440>>>" ++ check (runes_of_ascii "u8")).
-Eval vm_compute in ("<<<M2676>>>" ++ check (runes_of_ascii "x")).
+Eval vm_compute in ("<<<M2558>>>" ++ check (runes_of_ascii "// " ++ [233]%N ++ runes_of_ascii "
+" ++ [21517]%N)).
+Eval vm_compute in ("<<<M3059>>>" ++ check (runes_of_ascii "// c ")).
+Eval vm_compute in ("<<<M2516>>>" ++ check (runes_of_ascii """\\""")).
+Eval vm_compute in ("<<<M2529>>>" ++ check (runes_of_ascii "1 2")).
+Eval vm_compute in ("<<<M2521>>>" ++ check (runes_of_ascii "`a")).
+Eval vm_compute in ("<<<M2845>>>" ++ check (runes_of_ascii "M")).
